@@ -1,12 +1,17 @@
 """C10 - spanning trees and forests span, are acyclic and respect exclusions (structural clauses).
 
-Static only: reads the `ast` of mouette/processing/trees/*.py (and the use of UnionFind by Kruskal).
+Static only: reads the `ast` of mouette/processing/trees/*.py (and the use of UnionFind by Kruskal).  Every rule works on the
+flattened form of a method (msa/rules/hf_flat.py: closures, private (generator) methods and shared base-class helpers inlined,
+`deque(<generator>)` / `extend(<generator>)` written as loops, attribute and bound-method aliases replaced by what they name), finds
+its constructs by role and answers ok / fail (a recognised construct contradicts the obligation) / undecided (shape not understood).
 """
 from __future__ import annotations
 import ast, itertools
 from .. import au, sym, order, flow
 from ..core import AnalysisError
 from ..rules import skel0910 as sk
+from ..rules import hf_flat, hf_roles as hr
+from ..rules.hf_roles import FlatFn
 
 BASE = "processing.trees.base"
 EDGE = "processing.trees.edge_sp"
@@ -26,12 +31,15 @@ FORESTS = [
     (CELL, "CellSpanningForest", "cells", "CellSpanningTree", None),
 ]
 MAY_RETURN_NONE = ("opposite_face", "other_face_side")
+# connectivity queries whose results are NOT aligned position by position (face_to_faces drops the missing neighbours of border edges)
+NOT_ALIGNED = {("face_to_edges", "face_to_faces"), ("face_to_faces", "face_to_edges"), ("cell_to_face", "cell_to_cells"), ("cell_to_cells", "cell_to_face"),
+               ("vertex_to_edges", "vertex_to_vertices"), ("vertex_to_vertices", "vertex_to_edges")}
 
 EXPLANATION = (
     "Static conformance of the three breadth-first spanning trees (vertices / faces / cells), of Kruskal's minimal "
-    "spanning tree and of the three forests to their algorithm skeletons, applied uniformly to the siblings: guarded "
-    "enqueue (not seen, exclusion predicate, neighbour not None), FIFO discipline with seen-test / mark / parent "
-    "assignment once per element, children/edges pairing built from the parent table, `_computed` on every normal exit "
+    "spanning tree and of the three forests to their algorithm skeletons, decided on the flattened form of each method and applied "
+    "uniformly to the siblings: guarded enqueue (not seen, exclusion predicate, neighbour not None), FIFO discipline with seen-test / "
+    "mark / parent assignment once per element, children/edges pairing built from the parent table, `_computed` on every normal exit "
     "(must-dataflow) and tested by traverse, Kruskal's sort / union / edge / adjacency block, root-per-unvisited-element "
     "in the forests, element-kind agreement of the tables. Decides structural necessary conditions, not spanning or "
     "acyclicity as such.")
@@ -41,42 +49,65 @@ RULES = {
               "and by `child is not None` when the neighbour query may return None",
     "C10-B1": "BFS trees: deque used first-in first-out; popped pair in the order it was pushed; `if seen[child]: continue`, then mark, then "
               "parent[child] = parent-of-pair once; the child is expanded; the root is marked seen and expanded before the loop",
-    "C10-P1": "children[p].append(v) and edges.append(keyify(p, v)) in one block with p = parent[v], p is not None, over every element id",
-    "C10-C1": "`_computed` is False after __init__, set on every normal exit of every tree `compute`, set nowhere else, and tested by `traverse` "
-              "before the tables are read",
+    "C10-P1": "children[p].append(v) and edges.append(keyify(p, v)) under the same conditions with p = parent[v], p is not None, over every element id",
+    "C10-C1": "`_computed` is False after __init__, set on every normal exit of every tree `compute`, set by nothing but compute (and its private helpers), "
+              "and tested by `traverse` before the tables are read",
     "C10-K1": "Kruskal: admissible edges sorted ascending by the weight callable before the loop; union, edge record and both adjacency "
-              "inserts sit together in the block guarded by `not connected(a, b)`; union-find over all vertices; border exclusion is the "
-              "predicate of the BFS tree; the orientation pass sets parent/children consistently and never walks back to the parent",
+              "inserts sit together under `not connected(a, b)`; union-find over all vertices; border exclusion is the "
+              "predicate of the BFS tree; the orientation pass sets parent/children consistently and never walks back to the parent; the "
+              "'length' weights measure the current geometry",
     "C10-F1": "forests: a root is recorded, a tree of the matching class is built from it (with the forest's exclusions) and computed, for exactly "
               "the elements found unvisited; visited is marked from that tree's traversal",
     "C10-T1": "traverse: starts from (root, None), yields the popped (node, parent) before enqueueing (child, node) for the children of node, "
               "BFS pops the oldest entry and DFS the newest",
     "C10-S1": "element-kind agreement: parent / children / seen tables, id loops and the random root of one class all range over the same "
-              "element kind; the random root is in range",
+              "element kind; the random root is in range; every element gets a children list of its own",
     "C10-N1": "a None-defaulted parameter that selects the root element is tested with `is None` / `is not None`, never by truthiness "
               "(`x or default`, `if x`, `if not x`): element index 0 is a valid root; the requested root reaches self.root unchanged",
     "C10-A1": "all callables bound to one local name on sibling branches (edge_length of Kruskal) accept the arity of every call of that name",
+    "C10-U1": "UnionFind.connected(x, y) compares the roots returned by find(x) and find(y)",
+    "C10-E1": "the edge list of a forest is a fresh list: the lists owned by the trees are never extended in place",
 }
 
 
 def run(ctx):
-    n = 0
     for modname, cname, kind, excl in BFS_TREES:
         ctx.repo.cls(modname, cname)
         fn = ctx.repo.func(modname, cname + ".compute")
-        n += bfs_tree(ctx, modname, cname, fn, kind, excl)
+        bfs_tree(ctx, modname, cname, fn, kind, excl)
     avoid_edge_predicate(ctx)
     c1_computed(ctx)
     k1_kruskal(ctx)
     f1_forests(ctx)
     t1_traverse(ctx)
+    e1_forest_edges(ctx)
+    u1_unionfind(ctx)
     s1_kinds(ctx)
     n1_none_defaults(ctx)
     fn = ctx.repo.func(EDGE, "EdgeMinimalSpanningTree.compute")
-    nb, _ = sk.arity_agreement(ctx, "C10-A1", EDGE, fn)
+    F = _flat(ctx, EDGE, fn)
+    nb, _ = sk.arity_agreement(ctx, "C10-A1", EDGE, F.fn)
     if nb == 0:
-        ctx.fail("C10-A1", ctx.site(EDGE, fn), "weight callable of Kruskal is never called",
-                 "the weight mode selected by the caller has no effect on the tree")
+        ctx.ok("C10-A1", ctx.site(EDGE, fn), "no callable is bound to a local name on sibling branches")
+
+
+def _absent(ctx, F, region, rule, site, construct, what):
+    """report that something is missing: a violation only when the region is fully visible to the rules, undecided otherwise"""
+    res = F.opaque(region)
+    if res:
+        ctx.undecided(rule, site, construct, "part of the code concerned is not visible to the rule (a helper that was not inlined, a staged list ..)")
+    else:
+        ctx.fail(rule, site, construct, what)
+
+
+def _flat(ctx, modname, fn):
+    cache = getattr(ctx.repo, "_hf_flatfn", None)
+    if cache is None:
+        cache = ctx.repo._hf_flatfn = {}
+    k = (modname, id(fn), "c10")
+    if k not in cache:
+        cache[k] = FlatFn(ctx.repo, modname, fn, no_inline=("_avoid_edge",))
+    return cache[k]
 
 
 # ----------------------------------------------------------------------- helpers
@@ -86,18 +117,31 @@ def self_tab(e, name=None, idx=None):
             and (idx is None or e.slice.id == idx))
 
 
-def deque_names(fn):
+def deque_names(fn, lists=False):
     out = set()
     for st in au.stmts(fn.body):
-        if isinstance(st, (ast.Assign, ast.AnnAssign)) and isinstance(st.value, ast.Call) and au.call_tail(st.value) == "deque":
-            for t in au.assign_targets(st):
-                if isinstance(t, ast.Name):
-                    out.add(t.id)
+        if isinstance(st, (ast.Assign, ast.AnnAssign)) and st.value is not None:
+            v = st.value
+            is_q = isinstance(v, ast.Call) and au.call_tail(v) == "deque"
+            if lists:
+                is_q = is_q or (isinstance(v, ast.List) and not v.elts) or (isinstance(v, ast.Call) and au.call_tail(v) == "list" and not v.args)
+            if is_q:
+                for t in au.assign_targets(st):
+                    if isinstance(t, ast.Name):
+                        out.add(t.id)
     return out
 
 
-def local_defs(fn):
-    return {st.name: st for st in fn.body if isinstance(st, ast.FunctionDef)}
+def _pop_end(pop):
+    """'left' | 'right' end a pop call takes its element from: q.popleft() / q.pop(0) -> left ; q.pop() / q.pop(-1) -> right"""
+    if pop.func.attr == "popleft":
+        return "left"
+    if pop.func.attr == "pop":
+        if not pop.args or au.const(pop.args[0]) == -1:
+            return "right"
+        if au.const(pop.args[0]) == 0:
+            return "left"
+    return None
 
 
 def q_method(c, Q, tails):
@@ -105,202 +149,478 @@ def q_method(c, Q, tails):
             and c.func.value.id == Q and c.func.attr in tails)
 
 
-# ----------------------------------------------------------------------- BFS trees: X1, B1, P1
-def bfs_tree(ctx, modname, cname, fn, kind, excl):
-    site = ctx.site(modname, fn)
-    qs = deque_names(fn)
-    if len(qs) != 1:
-        ctx.fail("C10-B1", site, "work-list of the BFS is not a single collections.deque", f"deques found: {sorted(qs)}")
-        return 1
-    Q = next(iter(qs))
-    b = sym.Bindings(fn)
-    loops = [st for st in fn.body if isinstance(st, ast.While) and any(isinstance(n, ast.Name) and n.id == Q for n in au.walk(st.test))]
-    if len(loops) != 1:
-        ctx.fail("C10-B1", site, "BFS loop `while queue:` not found", f"{len(loops)} top-level while-loop(s) on the deque")
-        return 1
-    loop = loops[0]
-    # ---- pop
-    pops = [c for c in au.calls(loop) if q_method(c, Q, ("popleft", "pop"))]
-    pushes = [(c, owner) for owner in [fn] + list(local_defs(fn).values()) for c in au.calls(owner) if q_method(c, Q, ("append", "appendleft"))]
-    if len(pops) != 1 or not pushes:
-        ctx.fail("C10-B1", site, "BFS loop does not pop exactly once per iteration / never enqueues", f"{len(pops)} pop(s), {len(pushes)} enqueue(s)")
-        return 1
-    pop = pops[0]
-    ends = {("append", "popleft"): True, ("appendleft", "pop"): True}
-    fifo = all(ends.get((c.func.attr, pop.func.attr), False) for c, _ in pushes)
-    ctx.check(fifo, "C10-B1", ctx.site(modname, fn, pop),
-              f"work-list is not first-in first-out (enqueue with {sorted({c.func.attr for c, _ in pushes})}, dequeue with {pop.func.attr})",
-              "a last-in first-out work-list gives a depth-first tree: elements no longer get their minimum hop distance to the root",
-              note="append + popleft")
+def _is_none_cmp(e):
+    """`x is None` / `x == None` -> x"""
+    if isinstance(e, ast.Compare) and len(e.ops) == 1 and isinstance(e.ops[0], (ast.Is, ast.Eq)) and hr.is_none(e.comparators[0]):
+        return e.left
+    return None
+
+
+def _worklist(F, top_only=False):
+    """(Q, loop, pop call) of the work-list loop of a flattened function: the while loop that pops a deque; None when not unique"""
+    qs = deque_names(F.fn, lists=True)
+    found = []
+    for st in au.stmts(F.fn.body):
+        if not isinstance(st, ast.While):
+            continue
+        for Q in qs:
+            pops = [c for c in au.calls(st) if q_method(c, Q, ("popleft", "pop"))]
+            if pops:
+                found.append((Q, st, pops))
+    found = [f for f in found if not any(f[1] is not g[1] and F.inside(f[1], g[1]) for g in found)]
+    return found
+
+
+def _other_queue_uses(F, Q):
+    """uses of the work-list `Q` that are not its creation, append / pop calls, len() or a truth test: something else may fill it"""
+    out = []
+    for n in au.walk(F.fn):
+        if not (isinstance(n, ast.Name) and n.id == Q):
+            continue
+        p = au.parent(n)
+        if isinstance(n.ctx, ast.Store):
+            st = au.enclosing_stmt(n)
+            v = getattr(st, "value", None)
+            if isinstance(v, ast.Call) and au.call_tail(v) in ("deque", "list") and not v.args:
+                continue
+            if isinstance(v, ast.List) and not v.elts:
+                continue
+            out.append(n)
+            continue
+        if isinstance(p, ast.Attribute) and p.attr in ("append", "appendleft", "pop", "popleft") and isinstance(au.parent(p), ast.Call):
+            continue
+        if isinstance(p, ast.Call) and au.call_tail(p) in ("len", "bool"):
+            continue
+        if isinstance(p, (ast.While, ast.If, ast.UnaryOp, ast.BoolOp, ast.Compare)):
+            continue
+        out.append(n)
+    return out
+
+
+def _pair_of_pop(F, loop, pop):
+    """names (first, second) the popped entry is unpacked into, or None"""
     pst = au.enclosing_stmt(pop)
-    if not (isinstance(pst, ast.Assign) and pst.value is pop and isinstance(pst.targets[0], ast.Tuple) and len(pst.targets[0].elts) == 2
-            and all(isinstance(x, ast.Name) for x in pst.targets[0].elts) and any(pst is s for s in loop.body)):
-        ctx.fail("C10-B1", site, "popped entry is not unpacked as a (parent, child) pair at the top of the loop", au.src(pst))
-        return 1
-    pair = [x.id for x in pst.targets[0].elts]
-    # ---- seen table and child: from the mark `seen[c] = True` on a member of the popped pair
+    if isinstance(pst, ast.Assign) and pst.value is pop and len(pst.targets) == 1:
+        t = pst.targets[0]
+        if isinstance(t, ast.Tuple) and len(t.elts) == 2 and all(isinstance(x, ast.Name) for x in t.elts):
+            return [x.id for x in t.elts], pst
+        if isinstance(t, ast.Name):
+            # entry = q.popleft(); a, b = entry   |   a = entry[0]; b = entry[1]
+            ent = t.id
+            for st in loop.body:
+                if isinstance(st, ast.Assign) and len(st.targets) == 1 and isinstance(st.value, ast.Name) and st.value.id == ent \
+                        and isinstance(st.targets[0], ast.Tuple) and len(st.targets[0].elts) == 2 and all(isinstance(x, ast.Name) for x in st.targets[0].elts):
+                    return [x.id for x in st.targets[0].elts], st
+            got = {}
+            last = None
+            for st in loop.body:
+                if isinstance(st, ast.Assign) and len(st.targets) == 1 and isinstance(st.targets[0], ast.Name) and isinstance(st.value, ast.Subscript) \
+                        and isinstance(st.value.value, ast.Name) and st.value.value.id == ent and au.const(st.value.slice) in (0, 1):
+                    got[au.const(st.value.slice)] = st.targets[0].id
+                    last = st
+            if set(got) == {0, 1}:
+                return [got[0], got[1]], last
+    return None, pst
+
+
+# ----------------------------------------------------------------------- BFS trees: X1, B1, P1
+def bfs_tree(ctx, modname, cname, fn0, kind, excl):
+    F = _flat(ctx, modname, fn0)
+    fn = F.fn
+    site = ctx.site(modname, fn0)
+    b = F.b
+
+    def S(node):
+        return ctx.site(modname, fn0, node)
+    wl = _worklist(F)
+    if len(wl) != 1 or len(wl[0][2]) != 1:
+        ctx.undecided("C10-B1", site, "work-list loop of the breadth-first search not recognised",
+                      f"{len(wl)} loop(s) popping a collections.deque")
+        return
+    Q, loop, pops = wl[0]
+    pop = pops[0]
+    pushes = [c for c in au.calls(fn) if q_method(c, Q, ("append", "appendleft")) and len(c.args) == 1]
+    if not pushes:
+        if F.opaque(fn, {Q}) or _other_queue_uses(F, Q):
+            ctx.undecided("C10-B1", site, "the enqueue operations of the search are not visible", "the work-list is handed to a helper")
+        else:
+            ctx.fail("C10-B1", site, "the breadth-first search never enqueues", "nothing is ever appended to the work-list: the tree stays empty")
+        return
+    pend = _pop_end(pop)
+    kinds = {("right" if c.func.attr == "append" else "left", pend) for c in pushes}
+    if pend is not None and kinds <= {("right", "left"), ("left", "right")}:
+        ctx.ok("C10-B1", S(pop), "first-in first-out work-list")
+    elif pend is not None and kinds <= {("right", "right"), ("left", "left")}:
+        ctx.fail("C10-B1", S(pop), f"work-list is not first-in first-out (enqueue with {sorted({c.func.attr for c in pushes})}, dequeue with {pop.func.attr})",
+                 "a last-in first-out work-list gives a depth-first tree: elements no longer get their minimum hop distance to the root")
+    else:
+        ctx.undecided("C10-B1", S(pop), "the work-list mixes both ends of the deque", "")
+    pair, pst = _pair_of_pop(F, loop, pop)
+    if pair is None:
+        ctx.undecided("C10-B1", S(pop), "popped entry is not unpacked as a (parent, child) pair", "")
+        return
+    # ---- seen table and child: from a mark / a test of a flag on a member of the popped pair
     SEEN = child = None
     for st in au.stmts(loop.body):
-        if isinstance(st, ast.Assign) and len(st.targets) == 1 and sk.is_sub(st.targets[0]) and st.targets[0].slice.id in pair \
-                and au.const(st.value) is True:
-            SEEN, child = st.targets[0].value.id, st.targets[0].slice.id
+        fm = hr.flag_mark(st)
+        if fm and isinstance(fm[0], ast.Name) and isinstance(fm[1], ast.Name) and fm[1].id in pair and fm[2] is True:
+            SEEN, child = fm[0].id, fm[1].id
     if SEEN is None:
-        for st in loop.body:
-            if isinstance(st, ast.If):
-                for e, p in sk.atoms([(st.test, True)]):
-                    if sk.is_sub(e) and e.slice.id in pair:
-                        SEEN, child = e.value.id, e.slice.id
+        for st in au.stmts(loop.body):
+            for e, p in F.conds(st, stop=loop):
+                ft = hr.flag_test(e, p)
+                if ft and isinstance(ft[0], ast.Name) and isinstance(ft[1], ast.Name) and ft[1].id in pair:
+                    SEEN, child = ft[0].id, ft[1].id
     if SEEN is None:
-        ctx.fail("C10-B1", site, "`seen[child] = True` is missing or conditional after the seen test",
-                 "popped elements are never marked: the enqueue guard `not seen[..]` never closes and the search does not terminate on a cycle")
-        return 1
+        # which tables are tested at the enqueue?  if a seen table exists there but the popped element is never marked: not closing
+        push_flags = set()
+        for c in pushes:
+            for e, p in F.conds(c):
+                ft = hr.flag_test(e, p)
+                if ft and isinstance(ft[0], ast.Name):
+                    push_flags.add(ft[0].id)
+        any_mark = [st for st in au.stmts(fn.body) if (fm_ := hr.flag_mark(st)) and isinstance(fm_[0], ast.Name) and fm_[0].id in push_flags and F.inside(st, loop)]
+        if push_flags and not any_mark and not F.opaque(loop, set(pair) | push_flags):
+            ctx.fail("C10-B1", site, "`seen[child] = True` is missing or conditional after the seen test",
+                     "popped elements are never marked: the enqueue guard `not seen[..]` never closes and the search does not terminate on a cycle")
+        else:
+            ctx.undecided("C10-B1", site, "the seen table of the search is not recognised", "")
+        return
     par = [x for x in pair if x != child][0]
     ci, pi = pair.index(child), pair.index(par)
-    helpers0 = {name for name, d_ in local_defs(fn).items() if any(q_method(c, Q, ("append", "appendleft")) for c in au.calls(d_))}
-    expansions = [c for c in au.calls(loop) if (isinstance(c.func, ast.Name) and c.func.id in helpers0) or q_method(c, Q, ("append", "appendleft"))]
-    pop_tested = bool(expansions) and all(sk.has_atom(sk.path_conds(c, stop=loop), sk.sub(SEEN, child), False) for c in expansions)
+
+    def is_seen(e, p, key_name, at):
+        ft = hr.flag_test(e, p)
+        return bool(ft and isinstance(ft[0], ast.Name) and F.root(ft[0].id, at) == F.root(SEEN, at) and isinstance(ft[1], ast.Name)
+                    and F.root(ft[1].id, at) == F.root(key_name, at) and ft[2] is False)
+
+    inloop = [c for c in pushes if F.inside(c, loop)]
+    pre = [c for c in pushes if not F.inside(c, loop) and F.before(c, loop)]
+    pop_tested = bool(inloop) and all(any(is_seen(e, p, child, c) for e, p in F.conds(c, stop=loop)) for c in inloop)
     # ---- X1: every enqueue
-    n_push = 0
-    for c, owner in pushes:
-        n_push += 1
-        s = ctx.site(modname, owner, c)
-        t = c.args[0] if len(c.args) == 1 else None
-        if not (isinstance(t, ast.Tuple) and len(t.elts) == 2 and all(isinstance(x, ast.Name) for x in t.elts)):
-            ctx.fail("C10-X1", s, "enqueued entry is not a (parent, child) pair of names", au.src(c))
+    for c in pushes:
+        s = S(c)
+        t = _pair_arg(F, c)
+        if t is None:
+            ctx.undecided("C10-X1", s, "enqueued entry is not a (parent, child) pair", "")
             continue
-        pc, cc = t.elts[pi].id, t.elts[ci].id
-        conds = sk.atoms(sk.path_conds(c))
-        bo = sym.Bindings(owner)
-        ctx.check(sk.has_atom(conds, sk.sub(SEEN, cc), False) or pop_tested, "C10-X1", s,
-                  "enqueue of a neighbour is guarded by `not seen[neighbour]` neither when pushed nor when popped",
-                  "every expansion re-enqueues the element it came from: the search never terminates",
-                  note="enqueue guarded by not seen")
-        ctx.check(pc in au.params(owner) or owner is fn, "C10-X1", s,
-                  "pair pushed does not have the expanded element in the parent slot",
-                  f"`{au.src(t)}` is popped as ({', '.join(pair)})", note="(expanded element, neighbour) pushed in pop order")
-        # the element crossed: loop variable from which the neighbour is derived (or the neighbour itself)
-        fors = [a for a in au.ancestors(c) if isinstance(a, ast.For)]
-        lvars = set(au.assigned_names(fors[0].target)) if fors else set()
-        d = bo.reaching(cc, c)
-        if excl[0] == "call":
-            okx = False
-            for e, p in conds:
-                if isinstance(e, ast.Call) and au.is_self_attr(e.func, excl[1]) and not p:
-                    args = sorted(a.id if isinstance(a, ast.Name) else "?" for a in e.args)
-                    okx = args == sorted([pc, cc])
-            ctx.check(okx, "C10-X1", s, f"enqueue is not guarded by `not self.{excl[1]}(parent, neighbour)`",
-                      "the tree crosses an excluded edge (avoid_edges / avoid_boundary are ignored)",
-                      note=f"enqueue guarded by not self.{excl[1]}")
+        pe, ce = t.elts[pi], t.elts[ci]
+        if not isinstance(ce, ast.Name):
+            ctx.undecided("C10-X1", s, "the neighbour slot of the enqueued pair is not a variable", "")
+            continue
+        cc = ce.id
+        conds = F.conds(c, stop=None)
+        expanded = child if F.inside(c, loop) else None     # None: the root
+        def is_expanded(x):
+            if expanded is None:
+                return au.is_self_attr(F.resolve(x, c), "root") or au.is_self_attr(x, "root")
+            return isinstance(x, ast.Name) and F.root(x.id, c) == F.root(expanded, c)
+        if is_expanded(pe):
+            ctx.ok("C10-X1", s, "(expanded element, neighbour) pushed in pop order")
+        elif is_expanded(ce):
+            ctx.fail("C10-X1", s, "pair pushed does not have the expanded element in the parent slot",
+                     "the pair is popped as (parent, child): pushing (neighbour, expanded) makes the neighbour the parent of the element it was reached from")
+            continue
         else:
-            okx = False
-            crossed = None
+            ctx.undecided("C10-X1", s, "the parent slot of the enqueued pair is not recognised", "")
+            continue
+        if any(is_seen(e, p, cc, c) for e, p in conds) or pop_tested:
+            ctx.ok("C10-X1", s, "enqueue guarded by not seen")
+        elif any((ft := hr.flag_test(e, p)) and isinstance(ft[0], ast.Name) and F.root(ft[0].id, c) == F.root(SEEN, c) and ft[2] is True
+                 and isinstance(ft[1], ast.Name) and F.root(ft[1].id, c) == F.root(cc, c) for e, p in conds):
+            ctx.fail("C10-X1", s, "enqueue of a neighbour is guarded by `seen[neighbour]` (inverted)", "only elements that were already reached are enqueued")
+        else:
+            _absent(ctx, F, fn if expanded is None else loop, "C10-X1", s, "enqueue of a neighbour is guarded by `not seen[neighbour]` neither when pushed nor when popped",
+                    "every expansion re-enqueues the element it came from: the search never terminates")
+        fors = [a for a in au.ancestors(c) if isinstance(a, ast.For) and (expanded is None or F.inside(a, loop))]
+        lvars = set()
+        for f_ in fors:
+            lvars |= set(au.assigned_names(f_.target))
+        opaque = F.opaque(fors[-1] if fors else fn, {cc} | lvars) if fors else []
+        for f_ in fors:
+            for cl_ in au.calls(f_.iter):
+                fn_ = cl_.func
+                own = isinstance(fn_, ast.Name) and au.call_tail(cl_) not in ("enumerate", "zip", "range", "list", "tuple", "set", "sorted", "reversed", "len", "iter")
+                own = own or (isinstance(fn_, ast.Attribute) and isinstance(fn_.value, ast.Name) and fn_.value.id == "self")
+                if own:
+                    opaque = list(opaque) + [cl_]
+        # conditions on the enqueue that are neither a flag test nor a None test: the exclusion may hide behind them (fast paths, flags)
+        foreign_conds = [e_ for e_, p_ in conds if not hr.flag_test(e_, p_) and not (isinstance(e_, ast.Compare) and len(e_.ops) == 1
+                         and isinstance(e_.ops[0], (ast.Is, ast.IsNot)) and hr.is_none(e_.comparators[0]))]
+        if excl[0] == "call":
+            hit = None
             for e, p in conds:
-                if isinstance(e, ast.Compare) and len(e.ops) == 1 and isinstance(e.ops[0], ast.In) and not p \
-                        and au.is_self_attr(e.comparators[0], excl[1]) and isinstance(e.left, ast.Name):
-                    crossed = e.left.id
-            if crossed is not None and crossed in lvars and fors:
-                # the neighbour must be derived (assignment-only data dependence) from the crossed element
-                dep = {cc}
-                changed = True
-                while changed:
-                    changed = False
-                    for st_ in au.stmts(fors[0].body):
-                        if isinstance(st_, ast.Assign):
-                            tg = {nm for t_ in st_.targets for nm in au.assigned_names(t_)}
-                            if tg & dep and not au.names(st_.value) <= dep:
-                                dep |= au.names(st_.value)
-                                changed = True
-                okx = crossed in dep
-            ctx.check(okx, "C10-X1", s, f"enqueue is not guarded by `<element crossed> not in self.{excl[1]}`",
-                      f"the tree crosses a forbidden element; the test must be on the loop variable the neighbour is derived from "
-                      f"(found: {crossed})", note=f"enqueue guarded by not in self.{excl[1]}")
+                if isinstance(e, ast.Call) and au.is_self_attr(e.func, excl[1]):
+                    args = [F.root(a.id, c) if isinstance(a, ast.Name) else au.src(F.resolve(a, c)) for a in e.args]
+                    want = [F.root(cc, c), (F.root(pe.id, c) if isinstance(pe, ast.Name) else au.src(F.resolve(pe, c)))]
+                    hit = (p, sorted(args) == sorted(want))
+            if hit and hit[1] and not hit[0]:
+                ctx.ok("C10-X1", s, f"enqueue guarded by not self.{excl[1]}")
+            elif hit and hit[0]:
+                ctx.fail("C10-X1", s, f"enqueue is guarded by `self.{excl[1]}(parent, neighbour)` (inverted)", "only excluded edges are crossed")
+            elif hit:
+                ctx.fail("C10-X1", s, f"`self.{excl[1]}` is not applied to the edge (expanded element, neighbour)", "the exclusion is tested on another edge")
+            elif opaque or foreign_conds:
+                ctx.undecided("C10-X1", s, "the exclusion test of the enqueue is not visible", "")
+            else:
+                ctx.fail("C10-X1", s, f"enqueue is not guarded by `not self.{excl[1]}(parent, neighbour)`",
+                         "the tree crosses an excluded edge (avoid_edges / avoid_boundary are ignored)")
+        else:
+            tests = []
+            for e, p in conds:
+                if isinstance(e, ast.Compare) and len(e.ops) == 1 and isinstance(e.ops[0], ast.In) and au.is_self_attr(e.comparators[0], excl[1]):
+                    tests.append((e, p))
+                elif isinstance(e, ast.Compare) and any(au.is_self_attr(n, excl[1]) for n in ast.walk(e)):
+                    tests.append((e, None))
+            if not tests:
+                truthy = [e for e, p in conds if isinstance(e, ast.BoolOp) and any(au.is_self_attr(n, excl[1]) for n in ast.walk(e))]
+                if truthy:
+                    # `e and (e in forbidden)` : a truthiness test of the element id in front of the membership test (index 0 is falsy)
+                    bad = [v for t_ in truthy for v in t_.values if isinstance(v, ast.Name)]
+                    if bad:
+                        ctx.fail("C10-X1", s, f"the membership test in self.{excl[1]} is short-circuited by the truthiness of the element id",
+                                 "element index 0 is falsy: the exclusion is never applied to it")
+                    else:
+                        ctx.undecided("C10-X1", s, f"the test on self.{excl[1]} is part of a compound condition", "")
+                elif opaque or foreign_conds:
+                    ctx.undecided("C10-X1", s, "the exclusion test of the enqueue is not visible", "")
+                else:
+                    ctx.fail("C10-X1", s, f"enqueue is not guarded by `<element crossed> not in self.{excl[1]}`",
+                             "the tree crosses a forbidden element")
+            else:
+                e, p = tests[0]
+                lhs = F.resolve(e.left, c) if p is not None else None
+                on_self = p is not None and (au.is_self_attr(lhs, "root") or au.is_self_attr(e.left, "root") or
+                                             (isinstance(e.left, ast.Name) and (F.root(e.left.id, c) == F.root(cc, c) or
+                                                                              (expanded is not None and F.root(e.left.id, c) == F.root(expanded, c)))))
+                if p is None:
+                    ctx.undecided("C10-X1", s, f"the test on self.{excl[1]} is not a plain membership test", "")
+                elif p is True:
+                    ctx.fail("C10-X1", s, f"enqueue is guarded by `<element> in self.{excl[1]}` (inverted)", "only forbidden elements are crossed")
+                elif on_self:
+                    ctx.fail("C10-X1", s, f"the exclusion set self.{excl[1]} is tested on the element itself, not on the element crossed",
+                             "the test must be on the loop variable the neighbour is derived from")
+                elif not isinstance(e.left, ast.Name):
+                    ctx.undecided("C10-X1", s, f"the element tested against self.{excl[1]} is not a variable", "")
+                else:
+                    crossed = F.root(e.left.id, c)
+                    clo = hr.closure(F.deps(), {cc})
+                    derived = crossed in clo or e.left.id in clo
+                    zp = _zip_pair(fors, e.left.id, cc, clo)
+                    if zp == "not-aligned":
+                        ctx.fail("C10-X1", s, f"the element tested against self.{excl[1]} is paired with the neighbour by position in two "
+                                 "connectivity queries that are not aligned",
+                                 "the query of the neighbours drops the missing neighbours of border elements: the i-th crossing element and the "
+                                 "i-th neighbour do not correspond, so the exclusion is applied to the wrong element")
+                    elif zp == "zip":
+                        ctx.undecided("C10-X1", s, "crossing element and neighbour are paired by zip", "")
+                    elif derived and (crossed in lvars or e.left.id in lvars or
+                                      any(crossed in au.assigned_names(x.target) for x in au.walk(fn) if isinstance(x, ast.For))):
+                        ctx.ok("C10-X1", s, f"enqueue guarded by not in self.{excl[1]}")
+                    else:
+                        ctx.undecided("C10-X1", s, f"the neighbour is not derived from the element tested against self.{excl[1]}", "")
+        d = b.reaching(cc, c)
+        for _ in range(3):
+            if isinstance(d, ast.Name):
+                d = b.reaching(d.id, b._last_def_stmt)
         if isinstance(d, ast.Call) and au.call_tail(d) in MAY_RETURN_NONE:
-            nn = any(isinstance(e, ast.Compare) and isinstance(e.ops[0], ast.Is) and isinstance(e.left, ast.Name) and e.left.id == cc
-                     and au.const(e.comparators[0], 0) is None and isinstance(e.comparators[0], ast.Constant) and not p for e, p in conds)
+            nn = False
+            for e, p in conds:
+                x = _is_none_cmp(e)
+                if x is not None and isinstance(x, ast.Name) and F.root(x.id, c) == F.root(cc, c) and not p:
+                    nn = True
             ctx.check(nn, "C10-X1", s, f"neighbour returned by {au.call_tail(d)} is used without `is not None` test",
                       f"{au.call_tail(d)} returns None on the border: seen[None] raises TypeError", note="neighbour is not None")
     # ---- B1: mark, parent, expansion, root
-    marks = [st for st in au.stmts(loop.body) if isinstance(st, ast.Assign) and len(st.targets) == 1 and sk.is_sub(st.targets[0], SEEN, child)]
-    gm = [m for m in marks if au.const(m.value) is True
-          and all(sk.is_sub(e, SEEN, child) and not p for e, p in sk.atoms(sk.path_conds(m, stop=loop)))]
-    ctx.check(len(gm) == 1 and len(marks) == 1, "C10-B1", site, "`seen[child] = True` is missing or conditional after the seen test",
-              "without the mark the guards `not seen[..]` never close: the search does not terminate on a mesh with a cycle",
-              note="child marked seen once")
-    pas = [st for st in au.stmts(loop.body) if isinstance(st, ast.Assign) and len(st.targets) == 1 and self_tab(st.targets[0], "parent")]
-    okp = len(pas) == 1 and pas[0].targets[0].slice.id == child and isinstance(pas[0].value, ast.Name) and pas[0].value.id == par
-    has_test = okp and sk.has_atom(sk.path_conds(pas[0], stop=loop), sk.sub(SEEN, child), False)
-    ctx.check(okp, "C10-B1", site, "parent table is not written exactly once per popped pair as parent[child] = expanded element",
-              f"stores found: {[au.src(x) for x in pas]}; popped pair ({', '.join(pair)}), child = {child}",
-              note="parent[child] = parent of the pair, once")
+    marks = [(st, fm) for st in au.stmts(loop.body) if (fm := hr.flag_mark(st)) and isinstance(fm[0], ast.Name) and fm[0].id == SEEN
+             and isinstance(fm[1], ast.Name) and fm[1].id == child]
+    gm = [st for st, fm in marks if fm[2] is True and all(is_seen(e, p, child, st) for e, p in F.conds(st, stop=loop))]
+    if len(gm) >= 1 and len(gm) == len(marks):
+        ctx.ok("C10-B1", site, "child marked seen")
+    elif not marks and (F.opaque(loop, {SEEN, child}) or [st for st, tg_, v_ in hr.item_stores(loop) if isinstance(tg_.value, ast.Name)
+                                                        and F.root(tg_.value.id, st) == F.root(SEEN, st)]
+                        or [c_ for c_ in au.calls(loop) if isinstance(c_.func, ast.Attribute) and isinstance(c_.func.value, ast.Name)
+                            and F.root(c_.func.value.id, c_) == F.root(SEEN, c_) and c_.func.attr in ("add", "update")]):
+        ctx.undecided("C10-B1", site, "the mark of the popped element is not visible (the elements are marked elsewhere)", "")
+    else:
+        ctx.fail("C10-B1", site, "`seen[child] = True` is missing or conditional after the seen test",
+                 "without the mark the guards `not seen[..]` never close: the search does not terminate on a mesh with a cycle")
+    pas = [(st, tg, val) for st, tg, val in hr.item_stores(loop) if au.is_self_attr(tg.value, "parent")]
     DIST = None
-    has_dist = False
-    if okp:
-        extra = [(e, p) for e, p in sk.atoms(sk.path_conds(pas[0], stop=loop)) if not (sk.is_sub(e, SEEN, child) and not p)]
+    if not pas:
+        if F.opaque(loop, {child, par}):
+            ctx.undecided("C10-B1", site, "the parent assignment of the search is not visible", "")
+        else:
+            ctx.fail("C10-B1", site, "parent table is not written exactly once per popped pair as parent[child] = expanded element",
+                     "no store to self.parent in the search loop")
+    for st, tg, val in pas:
+        ok_store = isinstance(tg.slice, ast.Name) and tg.slice.id == child and isinstance(val, ast.Name) and F.root(val.id, st) == par
+        if not ok_store:
+            if isinstance(tg.slice, ast.Name) and tg.slice.id == par and isinstance(val, ast.Name) and val.id == child:
+                ctx.fail("C10-B1", S(st), "parent table is not written exactly once per popped pair as parent[child] = expanded element",
+                         "the store is parent[expanded element] = child (the wrong way round)")
+            else:
+                ctx.undecided("C10-B1", S(st), "the store to self.parent in the search loop is not recognised", "")
+            continue
+        ctx.ok("C10-B1", S(st), "parent[child] = parent of the pair")
+        conds = F.conds(st, stop=loop)
+        has_test = any(is_seen(e, p, child, st) for e, p in conds)
+        extra = [(e, p) for e, p in conds if not is_seen(e, p, child, st)]
+        has_dist = False
         if extra:
-            # accepted idiom: dist[parent] + 1 < dist[child], with dist[child] = dist[parent] + 1 in the same block
-            okd = False
+            okd = None
             if len(extra) == 1 and extra[0][1] and isinstance(extra[0][0], ast.Compare):
-                def symf(n):
-                    if sk.is_sub(n) and n.slice.id == par:
-                        return "P_" + n.value.id
-                    if sk.is_sub(n) and n.slice.id == child:
-                        return "C_" + n.value.id
-                    raise order.Unsupported(au.src(n))
-                tabs = {n.value.id for n in au.walk(extra[0][0]) if sk.is_sub(n)}
+                g2s = _GetToSub(F)
+                guard = g2s.visit(F.resolve(extra[0][0], st, keep=(par, child)))
+                tabs = {n.value.id for n in au.walk(guard) if sk.is_sub(n)}
                 if len(tabs) == 1:
                     DIST = tabs.pop()
                     try:
-                        w = _cmp_dist(extra[0][0], DIST, par, child)
+                        w = _cmp_dist(guard, DIST, par, child)
                     except order.Unsupported:
-                        w = False
-                    blk, _ = au.enclosing_block(pas[0])
-                    upd = [st for st in blk if isinstance(st, ast.Assign) and len(st.targets) == 1 and sk.is_sub(st.targets[0], DIST, child)]
-                    okd = w and len(upd) == 1 and _is_plus_one(upd[0].value, DIST, par)
-                    dinit = b.reaching(DIST, loop)
-                    okd = okd and dinit is not None and any(au.src(n) in ("float('inf')", "math.inf", "inf", "np.inf") for n in ast.walk(dinit))
-                    has_dist = okd
-            ctx.check(okd, "C10-B1", ctx.site(modname, fn, pas[0]),
-                      "parent assignment is guarded by something other than `dist[parent] + 1 < dist[child]` on a +inf-initialised table "
-                      "updated in the same block",
-                      f"guard `{au.src(extra[0][0])}`: on first visit the child must always receive its parent", note="hop-distance guard is vacuous on first visit")
-    if okp:
-        ctx.check(has_test or has_dist, "C10-B1", ctx.site(modname, fn, pas[0]),
-                  "parent assignment is protected neither by `if seen[child]: continue` nor by a hop-distance comparison",
-                  "an element reachable along two routes is queued twice: the later (never shorter) route overwrites its parent - the tree "
-                  "no longer gives minimum hop distances and parent may contain a cycle", note="parent assigned once: seen test / distance guard")
+                        w = None
+                    upd = [(s2, t2, v2) for s2, t2, v2 in hr.item_stores(loop) if isinstance(t2.value, ast.Name) and t2.value.id == DIST]
+                    same_conds = [u for u in upd if {(hr.key(e), p) for e, p in F.conds(u[0], stop=loop)} == {(hr.key(e), p) for e, p in conds}]
+                    if w is None:
+                        okd = None
+                    elif not w:
+                        okd = False
+                    else:
+                        okd = len(upd) == 1 and len(same_conds) == 1 and sk.is_sub(upd[0][1], DIST, child) and upd[0][2] is not None \
+                            and _is_plus_one(F.resolve(upd[0][2], upd[0][0], keep=(par, child)), DIST, par)
+                        ivals, found = F.initial_values(DIST, loop)
+                        inf_init = any(F.is_inf(x) for x in ivals) or DIST in g2s.tables
+                        if okd and not inf_init:
+                            # contradicted only by a table whose whole initial content is a recognised finite constant
+                            okd = False if found and ivals and all(isinstance(x, ast.Constant) and isinstance(x.value, (int, float))
+                                                                   and not isinstance(x.value, bool) for x in ivals) else None
+                        elif not okd and not upd and F.opaque(loop, {DIST, child, par}):
+                            okd = None
+                    has_dist = bool(okd)
+            if okd is True:
+                ctx.ok("C10-B1", S(st), "hop-distance guard is vacuous on first visit")
+            elif okd is False:
+                ctx.fail("C10-B1", S(st), "parent assignment is guarded by something other than `dist[parent] + 1 < dist[child]` on a +inf-initialised table "
+                         "updated under the same test", "on first visit the child must always receive its parent")
+            else:
+                ctx.undecided("C10-B1", S(st), "the parent assignment has a guard the rule does not recognise", "")
+                continue
+        push_marks = [s_ for s_ in au.stmts(fn.body) if (fm_ := hr.flag_mark(s_)) and isinstance(fm_[1], ast.Name) and fm_[1].id not in pair
+                      and not au.is_self_attr(F.resolve(fm_[1], s_), "root") and F.inside(s_, loop)]
+        if has_test or has_dist:
+            ctx.ok("C10-B1", S(st), "parent assigned once: seen test / distance guard")
+        elif push_marks:
+            ctx.undecided("C10-B1", S(st), "elements are marked when they are enqueued: the protection of the parent assignment is not analysed", "")
+        else:
+            _absent(ctx, F, loop, "C10-B1", S(st), "parent assignment is protected neither by `if seen[child]: continue` nor by a hop-distance comparison",
+                    "an element reachable along two routes is queued twice: the later (never shorter) route overwrites its parent - the tree "
+                    "no longer gives minimum hop distances and parent may contain a cycle")
     # expansion of the child
-    helpers = {name for name, d in local_defs(fn).items() if any(q_method(c, Q, ("append", "appendleft")) for c in au.calls(d))}
-    exp = [c for c in au.calls(loop) if isinstance(c.func, ast.Name) and c.func.id in helpers and len(c.args) == 1
-           and isinstance(c.args[0], ast.Name) and c.args[0].id == child
-           and all(sk.is_sub(e, SEEN, child) and not p for e, p in sk.atoms(sk.path_conds(c, stop=loop)))]
-    inline = [c for c, owner in pushes if owner is fn and any(a is loop for a in au.ancestors(c))]
-    ctx.check(bool(exp) or bool(inline), "C10-B1", site, "newly reached child is not expanded (its neighbours are not enqueued)",
-              "the tree stops at depth 1", note="child expanded after marking")
+    exp = [c for c in inloop if (t_ := _pair_arg(F, c)) is not None and isinstance(t_.elts[pi], ast.Name) and F.root(t_.elts[pi].id, c) == child]
+    if exp:
+        ctx.ok("C10-B1", site, "child expanded after marking")
+    elif F.opaque(loop, {child, Q}) or any(_pair_arg(F, c) is None for c in inloop) or _other_queue_uses(F, Q):
+        ctx.undecided("C10-B1", site, "the expansion of the popped element is not visible", "")
+    else:
+        ctx.fail("C10-B1", site, "newly reached child is not expanded (its neighbours are not enqueued)", "the tree stops at depth 1")
     # root: marked seen + expanded before the loop
-    idx = sk.index_in(fn.body, loop)
-    pre = fn.body[:idx]
-    root_seen = [st for st in pre if isinstance(st, ast.Assign) and len(st.targets) == 1 and isinstance(st.targets[0], ast.Subscript)
-                 and isinstance(st.targets[0].value, ast.Name) and st.targets[0].value.id == SEEN
-                 and au.is_self_attr(st.targets[0].slice, "root") and au.const(st.value) is True]
-    ctx.check(len(root_seen) == 1, "C10-B1", site, "root is not marked seen before the loop",
-              "a neighbour of the root enqueues (neighbour, root): the root gets a parent, parent/children contain a cycle and traverse never ends",
-              note="seen[root] = True")
-    root_exp = [c for st in pre for c in au.calls(st) if isinstance(c.func, ast.Name) and c.func.id in helpers and len(c.args) == 1
-                and au.is_self_attr(c.args[0], "root")]
-    ctx.check(len(root_exp) == 1, "C10-B1", site, "neighbours of the root are not enqueued before the loop", "the tree stays empty",
-              note="root expanded")
-    dseen = b.reaching(SEEN, loop)
-    ctx.check(dseen is not None and not any(isinstance(n, ast.Constant) and n.value is True for n in ast.walk(dseen)), "C10-B1", site,
-              "seen table does not start all-False", "", note="seen starts False")
+    root_seen = [st for st in au.stmts(fn.body) if F.before(st, loop) and (fm := hr.flag_mark(st)) and isinstance(fm[0], ast.Name)
+                 and F.root(fm[0].id, st) == F.root(SEEN, loop) and au.is_self_attr(F.resolve(fm[1], st), "root") and fm[2] is True]
+    sd = F.definition(SEEN, loop)
+    plain_false = (isinstance(sd, ast.ListComp) and isinstance(sd.elt, ast.Constant) and sd.elt.value is False) or \
+        (isinstance(sd, ast.BinOp) and isinstance(sd.op, ast.Mult) and any(isinstance(x, ast.List) and len(x.elts) == 1 and au.const(x.elts[0]) is False for x in (sd.left, sd.right))) or \
+        (isinstance(sd, ast.Call) and au.call_tail(sd) == "set" and not sd.args)
+    if root_seen:
+        ctx.ok("C10-B1", site, "seen[root] = True")
+    elif sd is not None and any(au.is_self_attr(n, "root") for n in ast.walk(sd)):
+        ctx.ok("C10-B1", site, "the seen table is created with the root marked")
+    elif F.opaque(fn, {SEEN}) or not plain_false:
+        ctx.undecided("C10-B1", site, "the mark of the root is not visible", "")
+    else:
+        ctx.fail("C10-B1", site, "root is not marked seen before the loop",
+                 "a neighbour of the root enqueues (neighbour, root): the root gets a parent, parent/children contain a cycle and traverse never ends")
+    root_exp = [c for c in pre if (t_ := _pair_arg(F, c)) is not None and au.is_self_attr(F.resolve(t_.elts[pi], c), "root")]
+    if root_exp:
+        ctx.ok("C10-B1", site, "root expanded")
+    elif pre or F.opaque(fn, {Q}) or _other_queue_uses(F, Q):
+        ctx.undecided("C10-B1", site, "the seeding of the work-list is not recognised", "")
+    else:
+        ctx.fail("C10-B1", site, "neighbours of the root are not enqueued before the loop", "the tree stays empty")
+    ivals, found = F.initial_values(SEEN, loop)
+    if any(isinstance(n, ast.Constant) and n.value is True for x in ivals for n in ast.walk(x)):
+        ctx.fail("C10-B1", site, "seen table does not start all-False", "")
+    else:
+        ctx.ok("C10-B1", site, "seen starts False")
     if DIST is not None:
-        rd = [st for st in pre if isinstance(st, ast.Assign) and len(st.targets) == 1 and isinstance(st.targets[0], ast.Subscript)
-              and isinstance(st.targets[0].value, ast.Name) and st.targets[0].value.id == DIST
-              and au.is_self_attr(st.targets[0].slice, "root") and au.const(st.value) == 0]
-        ctx.check(len(rd) == 1, "C10-B1", site, "hop distance of the root is not set to 0 before the loop",
-                  "inf + 1 < inf is False: no element ever receives a parent", note="dist[root] = 0")
+        rd = [st for st, tg, val in hr.item_stores(fn) if F.before(st, loop) and isinstance(tg.value, ast.Name) and tg.value.id == DIST
+              and au.is_self_attr(F.resolve(tg.slice, st), "root") and val is not None and au.const(val) == 0]
+        dd = F.definition(DIST, loop)
+        in_literal = isinstance(dd, ast.Dict) and any(k is not None and au.is_self_attr(k, "root") and au.const(v_) == 0 for k, v_ in zip(dd.keys, dd.values))
+        if rd or in_literal:
+            ctx.ok("C10-B1", site, "dist[root] = 0")
+        elif isinstance(dd, (ast.ListComp, ast.BinOp)) and not F.opaque(fn, {DIST}):
+            ctx.fail("C10-B1", site, "hop distance of the root is not set to 0 before the loop", "inf + 1 < inf is False: no element ever receives a parent")
+        else:
+            ctx.undecided("C10-B1", site, "the hop distance given to the root is not recognised", "")
     # ---- P1
-    p1_children(ctx, modname, cname, fn, kind, loop, DIST)
-    return 1
+    p1_children(ctx, modname, cname, fn0, F, kind, loop, DIST, par, child, SEEN)
+    _s1_compute_tables(ctx, modname, cname, fn0, F, kind, loop, [SEEN] + ([DIST] if DIST else []))
+
+
+class _GetToSub(ast.NodeTransformer):
+    """`D.get(k, <+inf>)` written `D[k]` (a missing key behaves as an infinite entry)"""
+
+    def __init__(self, F):
+        self.F = F
+        self.tables = set()
+
+    def visit_Call(self, n):
+        self.generic_visit(n)
+        if isinstance(n.func, ast.Attribute) and n.func.attr == "get" and isinstance(n.func.value, ast.Name) and len(n.args) == 2 and self.F.is_inf(n.args[1]):
+            self.tables.add(n.func.value.id)
+            return ast.copy_location(ast.Subscript(value=n.func.value, slice=n.args[0], ctx=ast.Load()), n)
+        return n
+
+
+def _pair_arg(F, c):
+    """the (a, b) tuple enqueued by call c (directly, or through a local name bound to it just before)"""
+    t = c.args[0]
+    if isinstance(t, ast.Name):
+        d = F.b.reaching(t.id, c)
+        if isinstance(d, ast.Tuple):
+            t = d
+    if isinstance(t, ast.Tuple) and len(t.elts) == 2:
+        return t
+    return None
+
+
+def _zip_pair(fors, a, b_, clo):
+    """are names a and b_ co-targets of one `for .. in zip(q1(..), q2(..))`?  'not-aligned' | 'zip' | None"""
+    for f_ in fors:
+        if isinstance(f_.iter, ast.Call) and au.call_tail(f_.iter) == "zip" and len(f_.iter.args) == 2 and isinstance(f_.target, ast.Tuple) \
+                and len(f_.target.elts) == 2:
+            ta, tb = (set(au.assigned_names(x)) for x in f_.target.elts)
+            if (a in ta and (b_ in tb or clo & tb)) or (a in tb and (b_ in ta or clo & ta)):
+                def tail(x):
+                    if isinstance(x, ast.Call):
+                        return au.call_tail(x)
+                    return None
+                qa, qb = f_.iter.args
+                # resolve names bound to a query just before
+                b = None
+                ts = []
+                for q in (qa, qb):
+                    t = tail(q)
+                    if t is None and isinstance(q, ast.Name):
+                        for st in au.stmts(au.enclosing_func(f_).body if au.enclosing_func(f_) else []):
+                            for nm, v in sym.split_assign(st):
+                                if nm == q.id and isinstance(v, ast.Call):
+                                    t = au.call_tail(v)
+                    ts.append(t)
+                if tuple(ts) in NOT_ALIGNED:
+                    return "not-aligned"
+                return "zip"
+    return None
 
 
 def _cmp_dist(e, DIST, par, child):
@@ -329,94 +649,277 @@ def _cmp_dist(e, DIST, par, child):
 
 
 def _is_plus_one(e, DIST, par):
-    terms = []
-
-    def rec(x):
-        if isinstance(x, ast.BinOp) and isinstance(x.op, ast.Add):
-            rec(x.left); rec(x.right)
-        else:
-            terms.append(x)
-    rec(e)
+    if e is None:
+        return False
+    terms = hr.add_terms(e)
     return len(terms) == 2 and any(sk.is_sub(t, DIST, par) for t in terms) and any(au.const(t) == 1 for t in terms)
 
 
-def p1_children(ctx, modname, cname, fn, kind, loop, DIST):
-    site = ctx.site(modname, fn)
-    b = sym.Bindings(fn)
+# ----------------------------------------------------------------------- element loops
+def _element_loop(F, lp, kind):
+    """(element variable, name holding parent[element] or None, kind found) when `lp` ranges over every element id of some kind:
+    for v in self.mesh.id_K | range(len(self.mesh.K)) | range(len(self.parent)) | range(n) with n = len(..) ; for v, p in enumerate(self.parent)"""
+    it, tg = lp.iter, lp.target
+    if isinstance(it, ast.Call) and au.call_tail(it) == "enumerate" and len(it.args) == 1 and au.is_self_attr(it.args[0], "parent") \
+            and isinstance(tg, ast.Tuple) and len(tg.elts) == 2 and all(isinstance(x, ast.Name) for x in tg.elts):
+        return tg.elts[0].id, tg.elts[1].id, "parent"
+    if isinstance(it, ast.Call) and au.call_tail(it) == "zip" and len(it.args) == 2 and au.is_self_attr(it.args[1], "parent") \
+            and isinstance(tg, ast.Tuple) and len(tg.elts) == 2 and all(isinstance(x, ast.Name) for x in tg.elts):
+        k = _kind_of_range(F, it.args[0], lp)
+        if k is not None:
+            return tg.elts[0].id, tg.elts[1].id, k
+    if not isinstance(tg, ast.Name):
+        return None
+    k = _kind_of_range(F, it, lp)
+    if k is None:
+        return None
+    return tg.id, None, k
+
+
+def _filtered_ids(F, lp):
+    """`for v in L` where L = [x for x in <all ids> if c1 if c2 ..] : (comprehension, its variable) or None"""
+    it = lp.iter
+    if isinstance(it, ast.Name) and isinstance(lp.target, ast.Name):
+        d = F.definition(it.id, lp)
+        if isinstance(d, ast.ListComp) and len(d.generators) == 1 and isinstance(d.generators[0].target, ast.Name) \
+                and au.src(d.elt) == d.generators[0].target.id:
+            return d, d.generators[0].target.id
+    return None
+
+
+def _dist_tracks_parent(F, loop, D):
+    """the table D gets `D[child] = D[parent] + 1` exactly where `parent[child] = parent` is stored, and D[root] = 0 before the loop
+    (D is then finite / defined exactly for the root and the elements that have a parent): True | False | None"""
+    pst = [(s2, t2, v2) for s2, t2, v2 in hr.item_stores(loop) if au.is_self_attr(t2.value, "parent")]
+    if len(pst) != 1 or not isinstance(pst[0][2], ast.Name) or not isinstance(pst[0][1].slice, ast.Name):
+        return None
+    ch_, pa_ = pst[0][1].slice.id, pst[0][2].id
+    pc = {(hr.key(x), q) for x, q in F.conds(pst[0][0], stop=loop)}
+    upd = [(s2, t2, v2) for s2, t2, v2 in hr.item_stores(loop) if isinstance(t2.value, ast.Name) and t2.value.id == D]
+    good = [u for u in upd if sk.is_sub(u[1], D, ch_) and u[2] is not None and _is_plus_one(F.resolve(u[2], u[0], keep=(ch_, pa_)), D, pa_)
+            and {(hr.key(x), q) for x, q in F.conds(u[0], stop=loop)} == pc]
+    rd = [s2 for s2, t2, v2 in hr.item_stores(F.fn) if F.before(s2, loop) and isinstance(t2.value, ast.Name) and t2.value.id == D
+          and au.is_self_attr(F.resolve(t2.slice, s2), "root") and v2 is not None and au.const(v2) == 0]
+    dd = F.definition(D, loop)
+    in_literal = isinstance(dd, ast.Dict) and any(k is not None and au.is_self_attr(k, "root") and au.const(v_) == 0 for k, v_ in zip(dd.keys, dd.values))
+    if good and (rd or in_literal) and len(upd) == len(good):
+        return True
+    if not upd and not F.opaque(loop, {D, ch_, pa_}):
+        return False
+    return None
+
+
+def _kind_of_range(F, it, at):
+    """element kind of an iterable over all ids: self.mesh.id_K -> K ; range(len(self.mesh.K)) -> K ; range(len(self.parent)) -> 'parent'"""
+    if isinstance(it, ast.Attribute) and it.attr.startswith("id_") and au.src(it.value) == "self.mesh":
+        return it.attr[3:]
+    if isinstance(it, ast.Call) and au.call_tail(it) == "range" and len(it.args) == 1:
+        n = F.b.resolve(it.args[0], at=at, keep=("self",))
+        return _kind_of_len(n)
+    return None
+
+
+def _kind_of_len(n):
+    if isinstance(n, ast.Call) and au.call_tail(n) == "len" and len(n.args) == 1:
+        a = n.args[0]
+        if isinstance(a, ast.Attribute) and au.src(a.value) == "self.mesh":
+            return a.attr[3:] if a.attr.startswith("id_") else a.attr
+        if au.is_self_attr(a, "parent") or au.is_self_attr(a, "children"):
+            return "parent"
+    return None
+
+
+def p1_children(ctx, modname, cname, fn0, F, kind, loop, DIST, par_, child_, SEEN=None):
+    fn = F.fn
+    site = ctx.site(modname, fn0)
+    b = F.b
+
+    def S(node):
+        return ctx.site(modname, fn0, node)
     ch = [c for c in au.calls(fn) if au.call_tail(c) == "append" and isinstance(c.func.value, ast.Subscript)
           and au.is_self_attr(c.func.value.value, "children") and len(c.args) == 1]
     ed = [c for c in au.calls(fn) if au.call_tail(c) == "append" and au.is_self_attr(c.func.value, "edges") and len(c.args) == 1]
+    opaque = F.impure_self_calls(fn)
+    opaque = list(opaque) + [st for st in au.stmts(fn.body) if isinstance(st, (ast.Assign, ast.AugAssign, ast.AnnAssign))
+                             and any(au.is_self_attr(t, "children") or au.is_self_attr(t, "edges") for t in au.assign_targets(st))]
+    opaque += [c for c in au.calls(fn) if isinstance(c.func, ast.Attribute) and c.func.attr in ("extend", "insert", "update")
+               and (au.is_self_attr(c.func.value, "edges") or au.is_self_attr(c.func.value, "children"))]
     if len(ch) != 1 or len(ed) != 1:
-        ctx.fail("C10-P1", site, "children / edges are not each filled by exactly one append",
-                 f"{len(ch)} children[..].append, {len(ed)} edges.append: the two tables must be built together from the parent table")
+        if (len(ch) == 0) != (len(ed) == 0) and len(ch) <= 1 and len(ed) <= 1 and not opaque:
+            ctx.fail("C10-P1", site, "children / edges are not each filled by exactly one append",
+                     f"{len(ch)} children[..].append, {len(ed)} edges.append: the two tables must be built together from the parent table")
+        else:
+            ctx.undecided("C10-P1", site, "the construction of children / edges from the parent table is not recognised",
+                          f"{len(ch)} children[..].append, {len(ed)} edges.append")
         return
     c1, c2 = ch[0], ed[0]
-    st1, st2 = au.enclosing_stmt(c1), au.enclosing_stmt(c2)
-    blk1, _ = au.enclosing_block(st1)
-    blk2, _ = au.enclosing_block(st2)
-    ctx.check(blk1 is blk2, "C10-P1", ctx.site(modname, fn, c1), "children[p].append(v) and edges.append(keyify(p, v)) are not in the same block",
-              "an element listed as a child without its tree edge (or the reverse): len(edges) != number of reached elements - 1",
-              note="children and edges filled in one block")
-    fors = [a for a in au.ancestors(c1) if isinstance(a, ast.For)]
-    if not fors or not isinstance(fors[0].target, ast.Name):
-        ctx.fail("C10-P1", site, "children are not built in a loop over the element ids", "")
-        return
-    lp = fors[0]
-    v = lp.target.id
-    ctx.check(isinstance(lp.iter, ast.Attribute) and lp.iter.attr == "id_" + kind and au.src(lp.iter.value) == "self.mesh"
-              and any(lp is s for s in fn.body) and sk.index_in(fn.body, lp) > sk.index_in(fn.body, loop),
-              "C10-P1", ctx.site(modname, fn, lp), f"children are not built over every id of self.mesh.id_{kind} after the search",
-              f"loop over `{au.src(lp.iter)}`", note=f"for v in self.mesh.id_{kind}")
-    pe = c1.func.value.slice
-    pres = b.resolve(pe, at=st1, keep=(v,))
-    okc = self_tab(pres, "parent", v) and isinstance(c1.args[0], ast.Name) and c1.args[0].id == v
-    ctx.check(okc, "C10-P1", ctx.site(modname, fn, c1), "children table is not filled as children[parent[v]].append(v)",
-              f"`{au.src(c1)}` with index resolving to `{au.src(pres)}`: children must be the inverse of parent", note="children[parent[v]].append(v)")
+    info = []
+    for c in (c1, c2):
+        fors = [a for a in au.ancestors(c) if isinstance(a, ast.For)]
+        el = _element_loop(F, fors[0], kind) if fors else None
+        if el is None and fors:
+            fl = _filtered_ids(F, fors[0])
+            if fl is not None:
+                k_ = _kind_of_range(F, fl[0].generators[0].iter, fors[0])
+                if k_ is not None:
+                    el = (fors[0].target.id, None, k_)
+        if el is None:
+            ctx.undecided("C10-P1", S(c), "children / edges are not built in a loop over the element ids", "")
+            return
+        lp = fors[0]
+        v, pname, k = el
+        if k not in (kind, "parent"):
+            ctx.fail("C10-P1", S(lp), f"children are not built over every id of self.mesh.id_{kind} after the search", f"the loop ranges over {k}")
+            return
+        if not F.before(loop, lp):
+            ctx.undecided("C10-P1", S(lp), "children / edges are built before the search loop", "")
+            return
+        info.append((c, lp, v, pname))
+
+    def norm_parent(e, v, pname, at):
+        """expression with the parent of v written `self.parent[<v>]` and v written `_v`"""
+        r = F.resolve(e, at, keep=(v,) + ((pname,) if pname else ()))
+        m = {v: ast.Name(id="_v", ctx=ast.Load())}
+        if pname:
+            m[pname] = ast.parse("self.parent[_v]", mode="eval").body
+        return sym.subst(r, m)
+    (c1, lp1, v1, p1), (c2, lp2, v2, p2) = info
+    pe = norm_parent(c1.func.value.slice, v1, p1, c1)
+    okc = au.src(pe) == "self.parent[_v]" and au.src(norm_parent(c1.args[0], v1, p1, c1)) == "_v"
+    if okc:
+        ctx.ok("C10-P1", S(c1), "children[parent[v]].append(v)")
+    elif au.src(pe) == "_v" and au.src(norm_parent(c1.args[0], v1, p1, c1)) == "self.parent[_v]":
+        ctx.fail("C10-P1", S(c1), "children table is not filled as children[parent[v]].append(v)", "children[v].append(parent[v]): children must be the inverse of parent")
+    else:
+        ctx.undecided("C10-P1", S(c1), "the index / element of the children append is not recognised", "")
     k = c2.args[0]
-    oke = isinstance(k, ast.Call) and au.call_tail(k) == "keyify" and len(k.args) == 2 and \
-        sorted(au.src(b.resolve(a, at=st2, keep=(v,))) for a in k.args) == sorted([v, f"self.parent[{v}]"])
-    ctx.check(oke, "C10-P1", ctx.site(modname, fn, c2), "tree edge is not recorded as keyify(parent[v], v)",
-              f"`{au.src(c2)}`", note="edges.append(keyify(parent[v], v))")
-    conds = sk.atoms(sk.path_conds(c1, stop=lp))
-    nn = [(e, p) for e, p in conds if isinstance(e, ast.Compare) and isinstance(e.ops[0], ast.Is) and isinstance(e.comparators[0], ast.Constant)
-          and e.comparators[0].value is None and not p and self_tab(b.resolve(e.left, at=st1, keep=(v,)), "parent", v)]
-    ctx.check(len(nn) == 1, "C10-P1", ctx.site(modname, fn, c1), "children / edges block is not guarded by `parent[v] is not None`",
-              "the root and unreached elements have no parent: children[None] raises TypeError", note="guarded by parent[v] is not None")
-    others = [(e, p) for e, p in conds if (e, p) not in nn]
-    oko = True
-    for e, p in others:
-        # accepted: `if isinf(dist[v]): continue`
-        if isinstance(e, ast.Call) and au.call_tail(e) == "isinf" and len(e.args) == 1 and sk.is_sub(e.args[0], None, v) and not p:
-            # accepted idiom `if isinf(dist[v]): continue` - sound only if dist is finite for every element that has a parent:
-            # dist[child] = dist[parent] + 1 next to the parent store, dist[root] = 0
-            D = e.args[0].value.id
-            pst = [st for st in au.stmts(loop.body) if isinstance(st, ast.Assign) and len(st.targets) == 1 and self_tab(st.targets[0], "parent")]
-            okd = False
-            if len(pst) == 1 and isinstance(pst[0].value, ast.Name):
-                child_, par_ = pst[0].targets[0].slice.id, pst[0].value.id
-                pb, _ = au.enclosing_block(pst[0])
-                okd = any(isinstance(x, ast.Assign) and len(x.targets) == 1 and sk.is_sub(x.targets[0], D, child_) and _is_plus_one(x.value, D, par_)
-                          for x in pb)
-            pre = fn.body[:sk.index_in(fn.body, loop)]
-            okd = okd and any(isinstance(x, ast.Assign) and len(x.targets) == 1 and isinstance(x.targets[0], ast.Subscript)
-                              and isinstance(x.targets[0].value, ast.Name) and x.targets[0].value.id == D
-                              and au.is_self_attr(x.targets[0].slice, "root") and au.const(x.value) == 0 for x in pre)
-            ctx.check(okd, "C10-P1", ctx.site(modname, fn, c1),
-                      "elements are skipped on `isinf(dist[v])` but dist is not updated together with the parent table",
-                      f"`{D}[child] = {D}[parent] + 1` must sit next to `parent[child] = parent` (and {D}[root] = 0): otherwise reached elements keep "
-                      "an infinite distance and are left out of children / edges", note="dist finite exactly for reached elements")
+    if isinstance(k, ast.Call) and au.call_tail(k) == "keyify" and len(k.args) == 2:
+        got = sorted(au.src(norm_parent(a, v2, p2, c2)) for a in k.args)
+        if got == sorted(["_v", "self.parent[_v]"]):
+            ctx.ok("C10-P1", S(c2), "edges.append(keyify(parent[v], v))")
+        elif got[0] == got[1]:
+            ctx.fail("C10-P1", S(c2), "tree edge is not recorded as keyify(parent[v], v)", "both ends of the recorded edge are the same element")
+        else:
+            ctx.undecided("C10-P1", S(c2), "the recorded tree edge is not recognised as keyify(parent[v], v)", "")
+    elif isinstance(k, (ast.Tuple, ast.List)) and len(k.elts) == 2:
+        ctx.undecided("C10-P1", S(c2), "tree edge is recorded without keyify", "")
+    else:
+        ctx.undecided("C10-P1", S(c2), "the recorded tree edge is not recognised", "")
+    # guards (those of a filtered id list `[v for v in ids if ..]` included)
+    csets = []
+    for c, lp, v, pname in info:
+        atoms = []
+        for e, p in sk.atoms(sk.path_conds(c, stop=lp)):
+            atoms.append((norm_parent(e, v, pname, c), p))
+        fl = _filtered_ids(F, lp)
+        if fl is not None:
+            comp, cv = fl
+            for t_ in comp.generators[0].ifs:
+                for e, p in sk.atoms([(t_, True)]):
+                    atoms.append((sym.subst(e, {cv: ast.Name(id="_v", ctx=ast.Load())}), p))
+        csets.append(atoms)
+
+    def is_nn(e, p):
+        x = _is_none_cmp(e)
+        return x is not None and au.src(x) == "self.parent[_v]" and not p
+    for (c, lp, v, pname), atoms in zip(info, csets):
+        if any(is_nn(e, p) for e, p in atoms):
+            ctx.ok("C10-P1", S(c), "guarded by parent[v] is not None")
+        elif any(_is_none_cmp(e) is not None and au.src(_is_none_cmp(e)) == "self.parent[_v]" and p for e, p in atoms):
+            ctx.fail("C10-P1", S(c), "children / edges block is guarded by `parent[v] is None` (inverted)", "")
+        else:
+            _absent(ctx, F, lp, "C10-P1", S(c), "children / edges block is not guarded by `parent[v] is not None`",
+                    "the root and unreached elements have no parent: children[None] raises TypeError")
+    k1 = {(au.src(e), p) for e, p in csets[0]}
+    k2 = {(au.src(e), p) for e, p in csets[1]}
+    if k1 == k2:
+        ctx.ok("C10-P1", S(c1), "children and edges filled under the same conditions")
+    else:
+        _absent(ctx, F, [lp1, lp2], "C10-P1", S(c1), "children[p].append(v) and edges.append(keyify(p, v)) are not executed under the same conditions",
+                "an element listed as a child without its tree edge (or the reverse): len(edges) != number of reached elements - 1")
+    for (c, lp, v, pname), atoms in zip(info[:1], csets[:1]):
+        others = [(e, p) for e, p in atoms if not is_nn(e, p)]
+        for e, p in others:
+            # `flags is None or flags[v]` with flags bound to a table: the first disjunct is never true
+            if isinstance(e, ast.BoolOp) and isinstance(e.op, ast.Or) and p:
+                keep_ = [x for x in e.values if not (_is_none_cmp(x) is not None and isinstance(_is_none_cmp(x), ast.Name)
+                                                     and isinstance(F.definition(_is_none_cmp(x).id, lp), (ast.List, ast.ListComp, ast.BinOp, ast.Dict, ast.DictComp, ast.Call)))]
+                if len(keep_) == 1:
+                    e = keep_[0]
+            # accepted: the flag table of the search itself (an element with a parent was popped, hence marked)
+            ft_ = hr.flag_test(e, p)
+            if SEEN is not None and ft_ and isinstance(ft_[0], ast.Name) and F.root(ft_[0].id, lp) == F.root(SEEN, lp) and au.src(ft_[1]) == "_v" and ft_[2] is True:
+                marks_ok = [st for st in au.stmts(loop.body) if (fm_ := hr.flag_mark(st)) and isinstance(fm_[0], ast.Name) and F.root(fm_[0].id, st) == F.root(SEEN, st)
+                            and isinstance(fm_[1], ast.Name) and fm_[1].id == child_ and fm_[2] is True]
+                if marks_ok:
+                    ctx.ok("C10-P1", S(c), "unreached elements skipped on the flag table of the search")
+                    continue
+            # accepted: `if isinf(dist[v]): continue` / `v in dist` (a dictionary of the reached elements)
+            D = None
+            if isinstance(e, ast.Call) and au.call_tail(e) == "isinf" and len(e.args) == 1 and isinstance(e.args[0], ast.Subscript) \
+                    and isinstance(e.args[0].value, ast.Name) and au.src(e.args[0].slice) == "_v" and not p:
+                D = e.args[0].value.id
+            elif isinstance(e, ast.Compare) and len(e.ops) == 1 and isinstance(e.ops[0], ast.Eq) and not p and isinstance(e.left, ast.Subscript) \
+                    and isinstance(e.left.value, ast.Name) and au.src(e.left.slice) == "_v" and F.is_inf(e.comparators[0]):
+                D = e.left.value.id               # dist[v] != inf
+            elif isinstance(e, ast.Compare) and len(e.ops) == 1 and isinstance(e.ops[0], ast.Lt) and p and isinstance(e.left, ast.Subscript) \
+                    and isinstance(e.left.value, ast.Name) and au.src(e.left.slice) == "_v" and F.is_inf(e.comparators[0]):
+                D = e.left.value.id               # dist[v] < inf
+            elif isinstance(e, ast.Subscript) and isinstance(e.value, ast.Name) and au.src(e.slice) == "_v" and not p \
+                    and isinstance(F.definition(e.value.id, lp), ast.Call) and au.call_tail(F.definition(e.value.id, lp)) == "isinf" \
+                    and isinstance(F.definition(e.value.id, lp).args[0], ast.Name):
+                D = F.definition(e.value.id, lp).args[0].id        # unreached = isinf(dist) ; if unreached[v]: continue
+            elif isinstance(e, ast.Compare) and len(e.ops) == 1 and isinstance(e.ops[0], ast.In) and au.src(e.left) == "_v" and isinstance(e.comparators[0], ast.Name) and p:
+                D = e.comparators[0].id
+                if not isinstance(F.definition(D, lp), (ast.Dict, ast.DictComp)):
+                    D = None
+            if D is not None:
+                okd = _dist_tracks_parent(F, loop, D)
+                if okd is True:
+                    ctx.ok("C10-P1", S(c), "dist finite exactly for reached elements")
+                elif okd is False:
+                    ctx.fail("C10-P1", S(c), "elements are skipped on `isinf(dist[v])` but dist is not updated together with the parent table",
+                             "`dist[child] = dist[parent] + 1` must sit next to `parent[child] = parent` (and dist[root] = 0): otherwise reached elements keep "
+                             "an infinite distance and are left out of children / edges")
+                else:
+                    ctx.undecided("C10-P1", S(c), "elements are skipped on a distance test and how the distance follows the parent table is not recognised", "")
+                continue
+            ctx.undecided("C10-P1", S(c), "children / edges block has a guard the rule does not recognise", au.src(e)[:50])
+
+
+def _s1_compute_tables(ctx, modname, cname, fn0, F, kind, loop, tables):
+    """C10-S1 for the work tables of compute: seen / dist range over the element kind of the class"""
+    for T in tables:
+        d = F.definition(T, loop)
+        if d is None:
             continue
-        oko = False
-    ctx.check(oko, "C10-P1", ctx.site(modname, fn, c1), "children / edges block has an extra guard",
-              f"guards: {[('' if p else 'not ') + au.src(e) for e, p in others]}: every element with a parent must be listed", note="no extra guard")
+        k = _table_kind(F, d, loop)
+        if k is None:
+            continue
+        ctx.check(k == kind, "C10-S1", ctx.site(modname, fn0, loop), f"{cname}.compute sizes a work table over {k} instead of {kind}",
+                  f"tables of one tree are all indexed by {kind} ids", note=f"work tables over {kind}")
+
+
+def _table_kind(F, d, at):
+    """element kind a list constructor ranges over: [x for _ in self.mesh.id_K], [x] * len(self.mesh.K), [.. for _ in range(n)]"""
+    if isinstance(d, ast.ListComp) and len(d.generators) == 1:
+        return _kind_of_range(F, d.generators[0].iter, at)
+    if isinstance(d, ast.BinOp) and isinstance(d.op, ast.Mult):
+        for side in (d.left, d.right):
+            if not isinstance(side, ast.List):
+                n = F.b.resolve(side, at=at, keep=("self",))
+                return _kind_of_len(n)
+    return None
 
 
 # ----------------------------------------------------------------------- exclusion predicate of the vertex tree
 def _avoid_atoms(e, a, b_):
     """atom name of a sub-expression of _avoid_edge / Kruskal's filter, or None"""
-    if isinstance(e, ast.Compare) and len(e.ops) == 1 and isinstance(e.ops[0], ast.Is) and au.is_self_attr(e.left, "_avoidedges") \
-            and isinstance(e.comparators[0], ast.Constant) and e.comparators[0].value is None:
+    x = _is_none_cmp(e)
+    if x is not None and au.is_self_attr(x, "_avoidedges"):
         return "AE_none"
+    if au.is_self_attr(e, "_avoidedges"):
+        return ("AE_none", False)          # truthiness of the set itself: treated as `is not None` (an empty set excludes nothing either way)
     if isinstance(e, ast.Compare) and len(e.ops) == 1 and isinstance(e.ops[0], ast.In) and au.is_self_attr(e.comparators[0], "_avoidedges") \
             and isinstance(e.left, ast.Call) and au.call_tail(e.left) == "edge_id" \
             and sorted(au.src(x) for x in e.left.args) == sorted([a, b_]):
@@ -431,61 +934,78 @@ def _avoid_atoms(e, a, b_):
     return None
 
 
-def _eval_bool(e, env, a, b_, unknown):
-    e2 = ast.Compare(left=e.left, ops=[ast.Is()], comparators=e.comparators) if isinstance(e, ast.Compare) and len(e.ops) == 1 \
-        and isinstance(e.ops[0], ast.IsNot) else None
-    if e2 is not None:
-        return not _eval_bool(e2, env, a, b_, unknown)
-    e3 = ast.Compare(left=e.left, ops=[ast.In()], comparators=e.comparators) if isinstance(e, ast.Compare) and len(e.ops) == 1 \
-        and isinstance(e.ops[0], ast.NotIn) else None
-    if e3 is not None:
-        return not _eval_bool(e3, env, a, b_, unknown)
+class _Unknown(Exception):
+    pass
 
-    def av(x):
-        if isinstance(x, ast.Compare) and len(x.ops) == 1 and isinstance(x.ops[0], (ast.IsNot, ast.NotIn)):
-            return _eval_bool(x, env, a, b_, unknown)
-        k = _avoid_atoms(x, a, b_)
-        if k is None:
-            unknown.append(au.src(x))
-            return False
-        return env[k]
-    return sk.truth_eval(e, av)
+
+def _eval_bool(e, env, a, b_):
+    if isinstance(e, ast.Compare) and len(e.ops) == 1 and isinstance(e.ops[0], (ast.IsNot, ast.NotIn, ast.NotEq)):
+        pos = {ast.IsNot: ast.Is, ast.NotIn: ast.In, ast.NotEq: ast.Eq}[type(e.ops[0])]()
+        return not _eval_bool(ast.Compare(left=e.left, ops=[pos], comparators=e.comparators), env, a, b_)
+    if isinstance(e, ast.Compare) and len(e.ops) == 1 and isinstance(e.ops[0], (ast.Is, ast.Eq)) and isinstance(e.comparators[0], ast.Constant) \
+            and isinstance(e.comparators[0].value, bool):
+        v = _eval_bool(e.left, env, a, b_)
+        return v == e.comparators[0].value
+    if isinstance(e, ast.BoolOp):
+        vals = [_eval_bool(v, env, a, b_) for v in e.values]
+        return all(vals) if isinstance(e.op, ast.And) else any(vals)
+    if isinstance(e, ast.UnaryOp) and isinstance(e.op, ast.Not):
+        return not _eval_bool(e.operand, env, a, b_)
+    if isinstance(e, ast.Constant) and isinstance(e.value, bool):
+        return e.value
+    if isinstance(e, ast.IfExp):
+        return _eval_bool(e.body, env, a, b_) if _eval_bool(e.test, env, a, b_) else _eval_bool(e.orelse, env, a, b_)
+    if isinstance(e, ast.Call) and au.call_tail(e) == "bool" and len(e.args) == 1 and not e.keywords:
+        return _eval_bool(e.args[0], env, a, b_)
+    k = _avoid_atoms(e, a, b_)
+    if k is None:
+        raise _Unknown(au.src(e)[:60])
+    if isinstance(k, tuple):
+        return env[k[0]] == k[1]
+    return env[k]
 
 
 def avoid_edge_predicate(ctx):
     """avoid(a, b) == (avoid_edges given and edge in it) or (avoid_boundary and not a polyline and edge on border)"""
-    fn = ctx.repo.func(EDGE, "EdgeSpanningTree._avoid_edge")
-    site = ctx.site(EDGE, fn)
-    ps = au.params(fn, skip_self=True)
+    fn0 = ctx.repo.func(EDGE, "EdgeSpanningTree._avoid_edge")
+    F = _flat(ctx, EDGE, fn0)
+    site = ctx.site(EDGE, fn0)
+    ps = au.params(fn0, skip_self=True)
     if len(ps) != 2:
-        ctx.fail("C10-X1", site, "_avoid_edge does not take the two endpoints", "")
+        ctx.undecided("C10-X1", site, "_avoid_edge does not take the two endpoints", "")
         return
     a, b_ = ps
     try:
-        f = order.return_formula(fn.body)
+        f = order.return_formula(hf_flat.strip_doc(F.fn.body))
     except order.Unsupported as ex:
-        ctx.fail("C10-X1", site, "_avoid_edge is no longer an if/return chain", str(ex))
+        ctx.undecided("C10-X1", site, "_avoid_edge is not an if/return chain the rule can tabulate", "")
         return
-    unknown = []
 
     def evf(f, env):
         if f[0] == "ite":
-            return evf(f[2], env) if _eval_bool(f[1], env, a, b_, unknown) else evf(f[3], env)
+            return evf(f[2], env) if _eval_bool(f[1], env, a, b_) else evf(f[3], env)
         if f[0] == "ret":
-            return _eval_bool(f[1], env, a, b_, unknown) if f[1] is not None else False
+            return _eval_bool(f[1], env, a, b_) if f[1] is not None else False
+        if f[0] == "raise":
+            raise _Unknown("raise")
         return False
     bad = None
     n = 0
-    for vals in itertools.product((False, True), repeat=5):
-        env = dict(zip(("AE_none", "IN", "AB", "PL", "BORDER"), vals))
-        n += 1
-        want = ((not env["AE_none"]) and env["IN"]) or (env["AB"] and not env["PL"] and env["BORDER"])
-        if bool(evf(f, env)) != want:
-            bad = bad or env
-    ctx.check(bad is None and not unknown, "C10-X1", site,
+    try:
+        for vals in itertools.product((False, True), repeat=5):
+            env = dict(zip(("AE_none", "IN", "AB", "PL", "BORDER"), vals))
+            if env["AE_none"] and env["IN"]:
+                continue          # `edge in None` cannot be evaluated
+            n += 1
+            want = ((not env["AE_none"]) and env["IN"]) or (env["AB"] and not env["PL"] and env["BORDER"])
+            if bool(evf(f, env)) != want:
+                bad = bad or env
+    except _Unknown as ex:
+        ctx.undecided("C10-X1", site, "_avoid_edge contains a condition the rule does not know", str(ex))
+        return
+    ctx.check(bad is None, "C10-X1", site,
               "_avoid_edge is not `(avoid_edges given and edge in avoid_edges) or (avoid_boundary and not polyline and edge on border)`",
-              f"differs from the specification for {bad}" + (f"; unrecognised atoms {sorted(set(unknown))}" if unknown else ""),
-              note=f"{n} truth assignments")
+              f"differs from the specification for {bad}", note=f"{n} truth assignments")
 
 
 # ----------------------------------------------------------------------- C10-C1
@@ -499,6 +1019,7 @@ def _sets_flag_on_all_exits(ctx, modname, cname, fn, depth=0):
     repo = ctx.repo
     mod = repo.module(modname)
     cls = repo.cls(modname, cname)
+    F = _flat(ctx, modname, fn)
 
     def super_sets():
         if depth > 4:
@@ -522,39 +1043,51 @@ def _sets_flag_on_all_exits(ctx, modname, cname, fn, depth=0):
                     state = (state | {"computed"}) if au.const(st.value) is True else (state - {"computed"})
         return state
     fl = flow.Flow(t_stmt)
-    fl.run(fn.body, frozenset())
+    fl.run(F.fn.body, frozenset())
     bad = [(k, n) for k, n, s in fl.exits if k in ("return", "fall") and "computed" not in s]
     return (not bad and bool([e for e in fl.exits if e[0] in ("return", "fall")])), bad
 
 
 def c1_computed(ctx):
     repo = ctx.repo
-    n = 0
     for modname, cname in TREE_COMPUTES:
         fn = repo.func(modname, cname + ".compute")
         ok, bad = _sets_flag_on_all_exits(ctx, modname, cname, fn)
-        n += 1
         ctx.check(ok, "C10-C1", ctx.site(modname, fn), f"{cname}.compute leaves `_computed` unset on a normal exit",
-                  "traverse() then raises 'Tree was not computed' although compute() was called (forests call traverse right after compute): "
-                  + ", ".join(f"{k} at line {getattr(nd, 'lineno', 'end')}" for k, nd in bad),
+                  "traverse() then raises 'Tree was not computed' although compute() was called (forests call traverse right after compute)",
                   note="_computed set on all normal exits")
     # initial value and writers
     init = repo.func(BASE, "SpanningTree.__init__")
     w = [st for st in au.stmts(init.body) if isinstance(st, (ast.Assign, ast.AnnAssign)) and any(au.is_self_attr(t, "_computed") for t in au.assign_targets(st))]
-    ctx.check(len(w) == 1 and au.const(w[0].value) is False and not au.guards(w[0]), "C10-C1", ctx.site(BASE, init),
-              "`_computed` is not initialised to False in SpanningTree.__init__",
-              "a fresh tree must refuse traversal (or: AttributeError in traverse when the flag is never created)", note="_computed = False in __init__")
+    if len(w) == 1 and au.const(w[0].value) is False and not au.guards(w[0]):
+        ctx.ok("C10-C1", ctx.site(BASE, init), "_computed = False in __init__")
+    elif not w:
+        # a class-level default also creates the flag
+        cls = repo.cls(BASE, "SpanningTree")
+        cl = [st for st in cls.body if isinstance(st, (ast.Assign, ast.AnnAssign)) and any(isinstance(t, ast.Name) and t.id == "_computed" for t in au.assign_targets(st))
+              and st.value is not None and au.const(st.value) is False]
+        if cl:
+            ctx.ok("C10-C1", ctx.site(BASE, init), "_computed = False as class default")
+        else:
+            ctx.fail("C10-C1", ctx.site(BASE, init), "`_computed` is not initialised to False in SpanningTree.__init__",
+                     "a fresh tree must refuse traversal (or: AttributeError in traverse when the flag is never created)")
+    elif any(au.const(x.value) is True for x in w):
+        ctx.fail("C10-C1", ctx.site(BASE, init), "`_computed` is not initialised to False in SpanningTree.__init__", "a fresh tree must refuse traversal")
+    else:
+        ctx.undecided("C10-C1", ctx.site(BASE, init), "the initialisation of `_computed` is not recognised", "")
     for modname in (BASE, EDGE, FACE, CELL):
         m = repo.module(modname)
         for q, f in m.funcs.items():
             for st in au.stmts(f.body):
                 if isinstance(st, (ast.Assign, ast.AnnAssign)) and any(isinstance(t, ast.Attribute) and t.attr == "_computed" for t in au.assign_targets(st)):
                     if au.const(st.value) is True:
-                        ctx.check(f.name == "compute", "C10-C1", ctx.site(modname, f, st), f"`_computed = True` outside a compute method ({q})",
+                        ctx.check(f.name == "compute" or hf_flat.is_private(f.name), "C10-C1", ctx.site(modname, f, st),
+                                  "`_computed = True` outside a compute method",
                                   "the flag would claim tables that were never built", note="flag set by compute only")
     # traverse tests the flag before touching the tables
-    tr = repo.func(BASE, "SpanningTree.traverse")
-    site = ctx.site(BASE, tr)
+    tr0 = repo.func(BASE, "SpanningTree.traverse")
+    tr = _flat(ctx, BASE, tr0).fn
+    site = ctx.site(BASE, tr0)
     uses = {}
 
     def scan(state, node):
@@ -580,438 +1113,948 @@ def c1_computed(ctx):
         return state
     flow.Flow(t_stmt, t_test, refine).run(tr.body, frozenset())
     if not uses:
-        ctx.fail("C10-C1", site, "traverse no longer reads self.root / self.children", "the traversal must walk the children table from the root")
+        ctx.undecided("C10-C1", site, "traverse does not read self.root / self.children directly", "")
     badu = [x for x, okk in uses.values() if not okk]
-    ctx.check(not badu, "C10-C1", site, "traverse reads the tree tables without having tested `self._computed`",
-              "on a tree that was not computed traverse silently yields the bare root instead of raising: "
-              + ", ".join(sorted({au.src(x) for x in badu})), note="`if not self._computed: raise` dominates the reads")
+    if uses:
+        ctx.check(not badu, "C10-C1", site, "traverse reads the tree tables without having tested `self._computed`",
+                  "on a tree that was not computed traverse silently yields the bare root instead of raising: "
+                  + ", ".join(sorted({au.src(x) for x in badu})), note="`if not self._computed: raise` dominates the reads")
 
 
 # ----------------------------------------------------------------------- C10-K1
+def _weight_key(F, key, at):
+    """what a sort key reads for edge id e: ('table', table expr) | ('callable', name) | ('const',) | None"""
+    if isinstance(key, ast.Attribute) and key.attr == "__getitem__":
+        return ("table", key.value)
+    if isinstance(key, ast.Lambda) and len(key.args.args) == 1:
+        p = key.args.args[0].arg
+        bd = key.body
+        if isinstance(bd, ast.Call) and isinstance(bd.func, ast.Name) and len(bd.args) == 1 and isinstance(bd.args[0], ast.Name) and bd.args[0].id == p:
+            return ("callable", bd.func.id)
+        if isinstance(bd, ast.Subscript) and isinstance(bd.slice, ast.Name) and bd.slice.id == p:
+            return ("table", bd.value)
+        if order.fold_const(bd) is not None:
+            return ("const",)
+        return None
+    if isinstance(key, ast.Name):
+        return ("callable", key.id)
+    return None
+
+
+def _stale_table(F, e, at):
+    """the table expression is (bound to) a stored attribute of the mesh: text or None"""
+    def bad_call(v):
+        if isinstance(v, ast.Call):
+            t = au.call_tail(v)
+            if t in ("get_attribute", "attribute"):
+                return f"`{au.src(v)[:60]}` (an attribute stored on the mesh by an earlier call)"
+            if any(k.arg == "persistent" and au.const(k.value) is True for k in v.keywords):
+                return f"`{au.src(v)[:70]}` (persistent: computed once, then re-used)"
+        return None
+    r = bad_call(e)
+    if r:
+        return r
+    if isinstance(e, ast.Name):
+        for st in au.stmts(F.fn.body):
+            for nm, v in sym.split_assign(st):
+                if nm == e.id:
+                    r = bad_call(v)
+                    if r:
+                        return r
+    return None
+
+
 def k1_kruskal(ctx):
     repo = ctx.repo
-    fn = repo.func(EDGE, "EdgeMinimalSpanningTree.compute")
-    site = ctx.site(EDGE, fn)
-    b = sym.Bindings(fn)
-    # main loop: for e in <edges>: a, b = self.mesh.edges[e]; if not uf.connected(a, b): ...
-    ufs = {t.id for st in au.stmts(fn.body) if isinstance(st, ast.Assign) and isinstance(st.value, ast.Call)
-           and au.call_tail(st.value) == "UnionFind" for t in st.targets if isinstance(t, ast.Name)}
+    fn0 = repo.func(EDGE, "EdgeMinimalSpanningTree.compute")
+    F = _flat(ctx, EDGE, fn0)
+    fn = F.fn
+    site = ctx.site(EDGE, fn0)
+    b = F.b
+    R = "C10-K1"
+
+    def S(node):
+        return ctx.site(EDGE, fn0, node)
+    ufs = {t.id: st for st in au.stmts(fn.body) if isinstance(st, (ast.Assign, ast.AnnAssign)) and isinstance(st.value, ast.Call)
+           and au.call_tail(st.value) == "UnionFind" for t in au.assign_targets(st) if isinstance(t, ast.Name)}
     if len(ufs) != 1:
-        ctx.fail("C10-K1", site, "Kruskal's union-find not found", f"{len(ufs)} UnionFind object(s)")
+        ctx.undecided(R, site, "Kruskal's union-find not recognised", f"{len(ufs)} UnionFind object(s)")
         return
-    UF = next(iter(ufs))
-    ufdef = b.defs.get(UF)
-    ctx.check(isinstance(ufdef, ast.Call) and len(ufdef.args) == 1 and au.src(ufdef.args[0]) == "self.mesh.id_vertices", "C10-K1", site,
-              "union-find is not created over every vertex id", f"`{au.src(ufdef)}`: find() raises ValueError for a missing element",
-              note="UnionFind(self.mesh.id_vertices)")
+    UF, ufst = next(iter(ufs.items()))
+    ufdef = ufst.value
+    dom = b.resolve(ufdef.args[0], at=ufst, keep=("self",)) if len(ufdef.args) == 1 else None
+    dk = _kind_of_range(F, dom, ufst) if dom is not None else None
+    if dk == "vertices":
+        ctx.ok(R, S(ufst), "UnionFind over the vertex ids")
+    elif dk is not None:
+        ctx.fail(R, S(ufst), "union-find is not created over every vertex id", f"it ranges over {dk}: find() raises ValueError for a missing element")
+    elif dom is None and not ufdef.args:
+        ctx.ok(R, S(ufst), "UnionFind() - elements are added by union")
+    else:
+        ctx.undecided(R, S(ufst), "the domain of Kruskal's union-find is not recognised", "")
     unions = [c for c in au.calls(fn) if isinstance(c.func, ast.Attribute) and isinstance(c.func.value, ast.Name)
               and c.func.value.id == UF and c.func.attr == "union"]
     if len(unions) != 1 or len(unions[0].args) != 2 or not all(isinstance(x, ast.Name) for x in unions[0].args):
-        ctx.fail("C10-K1", site, "Kruskal does not call union(a, b) exactly once", f"{len(unions)} union call(s)")
+        ctx.undecided(R, site, "Kruskal's union(a, b) call is not recognised", f"{len(unions)} union call(s)")
         return
     un = unions[0]
     A, B = (x.id for x in un.args)
-    ust = au.enclosing_stmt(un)
-    blk, owner = au.enclosing_block(ust)
     fors = [a for a in au.ancestors(un) if isinstance(a, ast.For)]
-    if not fors or not isinstance(fors[0].target, ast.Name) or not isinstance(fors[0].iter, ast.Name):
-        ctx.fail("C10-K1", site, "Kruskal's loop `for e in edges` over the sorted edge list not found", "")
+    if not fors:
+        ctx.undecided(R, site, "Kruskal's loop over the sorted edge list not recognised", "")
         return
     lp = fors[0]
-    E, LIST = lp.target.id, lp.iter.id
-    s = ctx.site(EDGE, fn, ust)
-    conds = sk.atoms(sk.path_conds(un, stop=lp))
-    guard = [(e, p) for e, p in conds if isinstance(e, ast.Call) and isinstance(e.func, ast.Attribute) and e.func.attr == "connected"
-             and isinstance(e.func.value, ast.Name) and e.func.value.id == UF]
-    okg = len(guard) == 1 and not guard[0][1] and sorted(au.src(x) for x in guard[0][0].args) == sorted([A, B]) and len(conds) == 1
-    ctx.check(okg, "C10-K1", s, "union is not guarded exactly by `not uf.connected(a, b)` on the same pair",
-              f"guards: {[('' if p else 'not ') + au.src(e) for e, p in conds]}: an edge closing a cycle must be rejected, every other admissible edge accepted",
-              note="if not uf.connected(a, b)")
-    # endpoints come from the loop edge
-    ends_ok = False
+    s = S(un)
+    # endpoints come from the loop edge: `a, b = self.mesh.edges[e]` or `for e, (a, b) in ...` / `for a, b in ...`
+    E = None
+    it = lp.iter
+    if isinstance(lp.target, ast.Name):
+        E = lp.target.id
+    tnames = set(au.assigned_names(lp.target))
+    ends_ok = None
     for st in lp.body:
         if isinstance(st, ast.Assign) and isinstance(st.targets[0], ast.Tuple) and [getattr(x, "id", None) for x in st.targets[0].elts] in ([A, B], [B, A]):
-            ends_ok = au.src(st.value) == f"self.mesh.edges[{E}]" and not au.guards(st, stop=lp)
-    ctx.check(ends_ok, "C10-K1", s, "endpoints tested / united are not those of the edge being scanned",
-              f"expected `{A}, {B} = self.mesh.edges[{E}]`", note="a, b = self.mesh.edges[e]")
-    # partners in the same block
-    def in_blk(c):
-        return any(au.enclosing_stmt(c) is x for x in blk)
-    edge_rec = [c for c in au.calls(lp) if au.call_tail(c) == "append" and au.is_self_attr(c.func.value, "edges")]
-    ok_e = len(edge_rec) == 1 and in_blk(edge_rec[0]) and isinstance(edge_rec[0].args[0], ast.Call) and au.call_tail(edge_rec[0].args[0]) == "keyify" \
-        and sorted(au.src(x) for x in edge_rec[0].args[0].args) == sorted([A, B])
-    ctx.check(ok_e, "C10-K1", s, "accepted edge is not recorded as edges.append(keyify(a, b)) in the union block",
-              f"{len(edge_rec)} edges.append in the loop", note="edges.append(keyify(a, b)) with the union")
+            v_ = st.value
+            if isinstance(v_, ast.Subscript) and au.src(v_.value) == "self.mesh.edges" and isinstance(v_.slice, ast.Name) and not au.guards(st, stop=lp):
+                if v_.slice.id in tnames:
+                    ends_ok = True
+                    E = E or v_.slice.id
+                elif F.root(v_.slice.id, st) in tnames:
+                    ends_ok = True
+                else:
+                    ends_ok = False
+    if ends_ok is True:
+        ctx.ok(R, s, "a, b = self.mesh.edges[e]")
+    elif ends_ok is False:
+        ctx.fail(R, s, "endpoints tested / united are not those of the edge being scanned", "expected `a, b = self.mesh.edges[e]`")
+    else:
+        ctx.undecided(R, s, "the endpoints of the scanned edge are not recognised", "")
+    conds = F.conds(un, stop=lp)
+
+    def conn_atom(e):
+        """the atom tests whether the two endpoints are connected: uf.connected(a,b) / uf.find(a) == uf.find(b)"""
+        if isinstance(e, ast.Call) and isinstance(e.func, ast.Attribute) and e.func.attr == "connected" and isinstance(e.func.value, ast.Name) \
+                and e.func.value.id == UF:
+            return sorted(au.src(x) for x in e.args) == sorted([A, B])
+        if isinstance(e, ast.Compare) and len(e.ops) == 1 and isinstance(e.ops[0], ast.Eq):
+            sides = [e.left, e.comparators[0]]
+            if all(isinstance(x, ast.Call) and isinstance(x.func, ast.Attribute) and x.func.attr == "find" and isinstance(x.func.value, ast.Name)
+                   and x.func.value.id == UF and len(x.args) == 1 for x in sides):
+                return sorted(au.src(x.args[0]) for x in sides) == sorted([A, B])
+        return None
+    guard = [(e, p, conn_atom(e)) for e, p in conds if conn_atom(e) is not None]
+    rest = [(e, p) for e, p in conds if conn_atom(e) is None]
+    if len(guard) == 1 and guard[0][2] and not guard[0][1] and not rest:
+        ctx.ok(R, s, "if not uf.connected(a, b)")
+    elif len(guard) == 1 and guard[0][1]:
+        ctx.fail(R, s, "union is guarded by `uf.connected(a, b)` (inverted)", "an edge closing a cycle must be rejected, every other admissible edge accepted")
+    elif len(guard) == 1 and not guard[0][2]:
+        ctx.fail(R, s, "the connectivity test is not on the pair that is united", "")
+    elif not guard and not rest and not isinstance(au.parent(un), ast.Expr):
+        ctx.undecided(R, s, "the result of union(a, b) is used: the guard of Kruskal's selection is not recognised", "")
+    elif not guard and not rest:
+        _absent(ctx, F, lp, R, s, "union is not guarded by `not uf.connected(a, b)`", "an edge closing a cycle must be rejected")
+    else:
+        ctx.undecided(R, s, "the guard of Kruskal's union is not recognised", "")
+    ukey = {(hr.key(e), p) for e, p in conds}
+
+    def same_conds(c):
+        return {(hr.key(e), p) for e, p in F.conds(c, stop=lp)} == ukey
+    edge_rec = [c for c in au.calls(lp) if au.call_tail(c) == "append" and au.is_self_attr(c.func.value, "edges") and len(c.args) == 1]
+    if len(edge_rec) == 1:
+        k = edge_rec[0].args[0]
+        okk = isinstance(k, ast.Call) and au.call_tail(k) == "keyify" and sorted(au.src(x) for x in k.args) == sorted([A, B])
+        if okk and same_conds(edge_rec[0]):
+            ctx.ok(R, s, "edges.append(keyify(a, b)) with the union")
+        elif okk:
+            ctx.fail(R, s, "accepted edge is not recorded as edges.append(keyify(a, b)) under the test of the union", "the record and the union must go together")
+        else:
+            ctx.undecided(R, s, "the edge recorded by Kruskal's loop is not keyify(a, b)", "")
+    elif not edge_rec and not F.opaque(lp, {A, B}) and not [st for st in au.stmts(fn.body) if isinstance(st, (ast.Assign, ast.AugAssign, ast.AnnAssign))
+                                                                 and any(au.is_self_attr(t, "edges") for t in au.assign_targets(st))] \
+            and not [c for c in au.calls(fn) if isinstance(c.func, ast.Attribute) and au.is_self_attr(c.func.value, "edges") and c.func.attr != "append"]:
+        ctx.fail(R, s, "accepted edge is not recorded as edges.append(keyify(a, b)) under the test of the union", "no edges.append in the loop")
+    else:
+        ctx.undecided(R, s, "the record of the accepted edge is not recognised", "")
     adds = [c for c in au.calls(lp) if au.call_tail(c) in ("add", "append") and isinstance(c.func.value, ast.Subscript)
             and isinstance(c.func.value.value, ast.Name) and len(c.args) == 1]
-    pairs = sorted((au.src(c.func.value.slice), au.src(c.args[0])) for c in adds if in_blk(c))
     tabs = {c.func.value.value.id for c in adds}
-    ok_n = pairs == sorted([(A, B), (B, A)]) and len(adds) == 2 and len(tabs) == 1
-    ctx.check(ok_n, "C10-K1", s, "adjacency of the accepted edge is not inserted in both directions in the union block",
-              f"inserts: {pairs}: the orientation pass walks this adjacency from the root", note="nb[a].add(b), nb[b].add(a) with the union")
     NB = next(iter(tabs)) if len(tabs) == 1 else None
-    # sort before the loop, by the weight callable, ascending
-    sorts = [c for st in fn.body for c in au.calls(st) if isinstance(c.func, ast.Attribute) and c.func.attr == "sort"
-             and isinstance(c.func.value, ast.Name) and c.func.value.id == LIST and any(st is x for x in fn.body)]
-    top_lp = sk.top_stmt_in(fn.body, lp)
-    ok_s = False
-    why = f"{len(sorts)} top-level `{LIST}.sort(...)`"
-    wname = None
-    if len(sorts) == 1:
-        c = sorts[0]
-        st = au.enclosing_stmt(c)
-        key = [kw.value for kw in c.keywords if kw.arg == "key"]
-        rev = [kw.value for kw in c.keywords if kw.arg == "reverse"]
-        asc = not rev or au.const(rev[0]) is False
-        cb = sk.callable_bindings(fn)
-        if key:
-            k = key[0]
-            if isinstance(k, ast.Name) and k.id in cb:
-                wname = k.id
-            elif isinstance(k, ast.Lambda) and len(k.args.args) == 1 and isinstance(k.body, ast.Call) and isinstance(k.body.func, ast.Name) \
-                    and k.body.func.id in cb and len(k.body.args) == 1 and isinstance(k.body.args[0], ast.Name) and k.body.args[0].id == k.args.args[0].arg:
-                wname = k.body.func.id
-        last_def = max([sk.index_in(fn.body, sk.top_stmt_in(fn.body, x)) for x in au.stmts(fn.body)
-                        if LIST in [nm for t in au.assign_targets(x) for nm in au.assigned_names(t)]] or [-1])
-        pos = sk.index_in(fn.body, st)
-        ok_s = bool(wname) and asc and not c.args and last_def < pos < sk.index_in(fn.body, top_lp)
-        why = f"`{au.src(c)}` (key callable: {wname}, ascending: {asc}, placed after the list is built and before the loop: {last_def < pos < sk.index_in(fn.body, top_lp)})"
-    ctx.check(ok_s, "C10-K1", site, "edge list is not sorted ascending by the weight callable between its construction and Kruskal's loop", why,
-              note=f"{LIST}.sort(key=weight) before the loop")
-    # weight callables: one binding per weight mode, each reading the edge id it is given
-    if wname:
-        for st, args in sk.callable_bindings(fn)[wname]:
-            if not isinstance(st, ast.Assign):
-                continue
-            lam = st.value
-            ps = [x.arg for x in lam.args.args]
-            if order.fold_const(lam.body) is not None:
-                ctx.ok("C10-K1", ctx.site(EDGE, fn, st), "constant weight")
-                continue
-            subs = [x for x in au.walk(lam.body) if isinstance(x, ast.Subscript)]
-            okw = len(ps) == 1 and len(subs) == 1 and isinstance(subs[0].slice, ast.Name) and subs[0].slice.id == ps[0] and lam.body is subs[0]
-            src_ok = True
-            if okw and isinstance(subs[0].value, ast.Name):
-                d = b.reaching(subs[0].value.id, st)
-                src_ok = isinstance(d, ast.Call) and au.call_tail(d) in ("attr_edge_length", "edge_length") and d.args and au.src(d.args[0]) == "self.mesh"
-            elif okw:
-                src_ok = au.is_self_attr(subs[0].value, "weights")
-            ctx.check(okw and src_ok, "C10-K1", ctx.site(EDGE, fn, st), "weight callable does not read the per-edge table at the edge id it receives",
-                      f"`{au.src(lam)}`", note="weight(e) = table[e]")
-    # admissible edges: same border predicate as the BFS tree
-    ifs = [st for st in fn.body if isinstance(st, ast.If) and st.orelse and all(
-        any(isinstance(x, ast.Assign) and isinstance(x.targets[0], ast.Name) and x.targets[0].id == LIST for x in br) for br in (st.body, st.orelse))]
-    if len(ifs) != 1:
-        ctx.fail("C10-K1", site, "selection of the admissible edges (all / interior only) not found", f"{len(ifs)} if/else binding `{LIST}`")
+    pairs = sorted((au.src(c.func.value.slice), au.src(c.args[0])) for c in adds)
+    if NB and pairs == sorted([(A, B), (B, A)]) and all(same_conds(c) for c in adds):
+        ctx.ok(R, s, "nb[a].add(b), nb[b].add(a) with the union")
+    elif NB and set(pairs) < {(A, B), (B, A)} and len(adds) == 1:
+        _absent(ctx, F, lp, R, s, "adjacency of the accepted edge is not inserted in both directions under the test of the union",
+                "one direction only: the orientation pass walks this adjacency from the root")
+    elif NB and pairs == sorted([(A, B), (B, A)]):
+        ctx.fail(R, s, "adjacency of the accepted edge is not inserted in both directions under the test of the union", "the inserts are not under the same test")
     else:
-        sel = ifs[0]
-        unknown = []
-        res = {}
+        ctx.undecided(R, s, "the adjacency filled by Kruskal's loop is not recognised", "")
+        NB = None
+    # ---- sort before the loop, by the weight callable, ascending
+    LIST = it.id if isinstance(it, ast.Name) else None
+    keyinfo = None
+    sort_node = None
+    if isinstance(it, ast.Call) and au.call_tail(it) == "sorted" and it.args:
+        sort_node = it
+    elif LIST:
+        d = b.reaching(LIST, lp)
+        if isinstance(d, ast.Call) and au.call_tail(d) == "sorted" and d.args:
+            sort_node = d
+        elif isinstance(d, ast.Call) and au.call_tail(d) == "argsort":
+            ctx.fail(R, site, "the edge list scanned by Kruskal's loop is the result of argsort",
+                     "argsort returns positions in the candidate list, not edge ids: with a filtered candidate list the loop scans other edges")
+            LIST = None
+        else:
+            sorts = [c for c in au.calls(fn) if isinstance(c.func, ast.Attribute) and c.func.attr == "sort" and isinstance(c.func.value, ast.Name)
+                     and c.func.value.id == LIST and F.before(c, lp)]
+            if len(sorts) == 1:
+                sort_node = sorts[0]
+                later = [x for x in au.stmts(fn.body) if LIST in [nm for t in au.assign_targets(x) for nm in au.assigned_names(t)]
+                         and F.before(sort_node, x) and F.before(x, lp)]
+                if later:
+                    ctx.fail(R, S(later[0]), "the edge list is rebuilt after it was sorted", "")
+                    sort_node = None
+                    LIST = None
+            elif not sorts:
+                sortish = [c for c in au.calls(fn) if "sort" in (au.call_tail(c) or "") or (au.call_tail(c) or "").startswith("heap") or (au.call_tail(c) or "") in ("min", "nsmallest")]
+                if not F.opaque(fn, {LIST}) and not sortish:
+                    ctx.fail(R, site, "edge list is not sorted ascending by the weight callable between its construction and Kruskal's loop",
+                             "Kruskal on unsorted edges returns a spanning tree that is not of minimum weight")
+                else:
+                    ctx.undecided(R, site, "the sort of Kruskal's edge list is not visible", "")
+                LIST = None
+            else:
+                ctx.undecided(R, site, "Kruskal's edge list is sorted several times", "")
+                LIST = None
+    if sort_node is not None and isinstance(sort_node, ast.Call) and au.call_tail(sort_node) == "sorted" and sort_node.args \
+            and isinstance(sort_node.args[0], ast.Call) and au.call_tail(sort_node.args[0]) == "range" and ends_ok is True:
+        ctx.fail(R, S(sort_node), "the list scanned by Kruskal's loop holds positions in the candidate list, but the loop uses them as edge ids",
+                 "sorting range(len(candidates)) gives positions: with a filtered candidate list (avoid_boundary) the loop scans other edges")
+        sort_node = None
+        LIST = None
+    if sort_node is not None:
+        key = [kw.value for kw in sort_node.keywords if kw.arg == "key"]
+        rev = [kw.value for kw in sort_node.keywords if kw.arg == "reverse"]
+        asc = not rev or au.const(rev[0]) is False
+        if not asc:
+            ctx.fail(R, S(sort_node), "edge list is not sorted ascending by the weight callable between its construction and Kruskal's loop", "descending sort")
+        sconds = F.conds(sort_node)
+        own = [(e, p) for e, p in sconds if not any(hr.key(e) == hr.key(e2) and p == p2 for e2, p2 in F.conds(lp))]
+        keyinfo = _weight_key(F, key[0], sort_node) if key else None
+        if not key:
+            ctx.fail(R, S(sort_node), "edge list is sorted without the weight callable", "the edges are ordered by their ids, not by weight")
+        elif keyinfo is None:
+            ctx.undecided(R, S(sort_node), "the sort key of Kruskal's edge list is not recognised", "")
+        else:
+            okcond = True
+            for e, p in own:
+                x = _is_none_cmp(e)
+                # `if key is not None: sort` : no weight function, nothing to sort by
+                if x is not None and not p and isinstance(x, ast.Name) and keyinfo[0] == "callable" and x.id == keyinfo[1]:
+                    continue
+                okcond = False
+            if okcond and asc:
+                ctx.ok(R, S(sort_node), "edges sorted ascending by weight before the loop")
+            elif asc:
+                ctx.undecided(R, S(sort_node), "the sort of Kruskal's edge list is conditional", "")
+    # ---- weight callables: each reads the per-edge table at the edge id it is given
+    if keyinfo and keyinfo[0] == "callable":
+        wname = keyinfo[1]
+        binds = []
+        for st in au.stmts(fn.body):
+            for nm, v in sym.split_assign(st):
+                if nm == wname:
+                    binds.append((st, v))
+            if isinstance(st, ast.FunctionDef) and st.name == wname:
+                body = hf_flat.strip_doc(st.body)
+                if len(body) == 1 and isinstance(body[0], ast.Return) and body[0].value is not None and len(st.args.args) == 1:
+                    binds.append((st, ast.Lambda(args=st.args, body=body[0].value)))
+                else:
+                    binds.append((st, None))
+        for st, v in binds:
+            if v is None:
+                ctx.undecided(R, S(st), "a weight callable of Kruskal is not a single expression", "")
+                continue
+            if isinstance(v, ast.Constant) and v.value is None:
+                continue
+            wk = _weight_key(F, v, st) if not isinstance(v, ast.Lambda) else None
+            if isinstance(v, ast.Lambda):
+                ps = [x.arg for x in v.args.args]
+                if order.fold_const(v.body) is not None:
+                    ctx.ok(R, S(st), "constant weight")
+                    continue
+                if len(ps) == 1 and isinstance(v.body, ast.Subscript) and isinstance(v.body.slice, ast.Name) and v.body.slice.id == ps[0]:
+                    wk = ("table", v.body.value)
+                elif len(ps) == 1 and any(isinstance(x, ast.Subscript) for x in ast.walk(v.body)) and ps[0] not in au.names(v.body):
+                    ctx.fail(R, S(st), "weight callable does not read the per-edge table at the edge id it receives", "the edge id is ignored")
+                    continue
+                elif len(ps) != 1:
+                    continue         # arity: C10-A1
+                else:
+                    ctx.undecided(R, S(st), "a weight callable of Kruskal is not of the form table[e]", "")
+                    continue
+            if wk and wk[0] == "table":
+                tb = wk[1]
+                stale = _stale_table(F, tb, st)
+                if stale:
+                    ctx.fail(R, S(st), "edge lengths are read from an attribute stored on the mesh instead of the current geometry",
+                             f"the weights come from {stale}: after the vertices move, Kruskal sorts the edges with stale lengths")
+                else:
+                    ctx.ok(R, S(st), "weight(e) = table[e]")
+            elif wk is None:
+                ctx.undecided(R, S(st), "a weight callable of Kruskal is not recognised", "")
+    elif keyinfo and keyinfo[0] == "table":
+        stale = _stale_table(F, keyinfo[1], sort_node)
+        if stale:
+            ctx.fail(R, S(sort_node), "edge lengths are read from an attribute stored on the mesh instead of the current geometry", f"the weights come from {stale}")
+    # ---- admissible edges: same border predicate as the BFS tree
+    if LIST:
+        _k1_admissible(ctx, F, fn0, LIST, lp, sort_node)
+    # ---- orientation pass
+    k2_orientation(ctx, F, fn0, NB, lp)
+
+
+def _k1_admissible(ctx, F, fn0, LIST, lp, sort_node):
+    R = "C10-K1"
+    fn = F.fn
+    site = ctx.site(EDGE, fn0)
+    # the list the candidates come from: LIST itself, or the argument of sorted(..)
+    src_name = LIST
+    d = F.b.reaching(LIST, lp)
+    if isinstance(d, ast.Call) and au.call_tail(d) == "sorted" and d.args and isinstance(d.args[0], ast.Name):
+        src_name = d.args[0].id
+    elif isinstance(sort_node, ast.Call) and au.call_tail(sort_node) == "sorted" and sort_node.args and isinstance(sort_node.args[0], ast.Name):
+        src_name = sort_node.args[0].id
+    binds = [(st, v) for st in au.stmts(fn.body) for nm, v in sym.split_assign(st) if nm == src_name and F.before(st, lp)]
+    binds = [(st, v) for st, v in binds if not (isinstance(v, ast.Call) and au.call_tail(v) == "sorted" and v.args and isinstance(v.args[0], ast.Name)
+                                                and v.args[0].id == src_name)]
+    # a later refinement `L = [e for e in L if e not in <exclusion set>]` (an optional extra exclusion) does not change the border policy
+    def is_refinement(v):
+        if isinstance(v, ast.ListComp) and len(v.generators) == 1 and isinstance(v.generators[0].iter, ast.Name) and v.generators[0].iter.id == src_name \
+                and isinstance(v.generators[0].target, ast.Name) and au.src(v.elt) == v.generators[0].target.id and len(v.generators[0].ifs) == 1:
+            t = v.generators[0].ifs[0]
+            return au.canon_test(t).startswith(v.generators[0].target.id + " not in ")
+        return False
+    binds = [(st, v) for st, v in binds if not is_refinement(v)]
+    # a list filled by an append loop: `cands = []; for e, (A, B) in enumerate(edges): if border: continue; cands.append(e)`
+    def resolve_built(st, v):
+        if isinstance(v, ast.Name):
+            dd = F.definition(v.id, st)
+            nm = F.root(v.id, st)
+        elif (isinstance(v, ast.List) and not v.elts) or (isinstance(v, ast.Call) and au.call_tail(v) == "list" and not v.args):
+            dd, nm = v, src_name
+        else:
+            return v
+        if (isinstance(dd, ast.List) and not dd.elts) or (isinstance(dd, ast.Call) and au.call_tail(dd) == "list" and not dd.args):
+            apps = [c for c in au.calls(fn) if au.call_tail(c) == "append" and isinstance(c.func.value, ast.Name) and F.root(c.func.value.id, c) == nm
+                    and len(c.args) == 1 and F.before(c, lp)]
+            if len(apps) == 1:
+                fr = [a for a in au.ancestors(apps[0]) if isinstance(a, ast.For)]
+                if len(fr) == 1:
+                    tests = [t if p else ast.UnaryOp(op=ast.Not(), operand=t) for t, p in sk.path_conds(apps[0], stop=fr[0])]
+                    comp = ast.ListComp(elt=apps[0].args[0], generators=[ast.comprehension(target=fr[0].target, iter=fr[0].iter, ifs=tests, is_async=0)])
+                    return ("built", comp, apps[0])
+        return v
+    if not binds:
+        ctx.undecided(R, site, "selection of the admissible edges (all / interior only) not recognised", "")
+        return
+    res = {}
+    try:
         for ab, pl in itertools.product((False, True), repeat=2):
             env = {"AB": ab, "PL": pl, "AE_none": True, "IN": False, "BORDER": False}
-            t = _eval_bool(sel.test, env, "?", "?", unknown)
-            br = sel.body if t else sel.orelse
-            val = [x.value for x in br if isinstance(x, ast.Assign) and isinstance(x.targets[0], ast.Name) and x.targets[0].id == LIST][-1]
-            res[(ab, pl)] = _edge_selection(val)
-        want = {(ab, pl): ("filtered" if (ab and not pl) else "all") for ab, pl in res}
-        ctx.check(res == want and not unknown, "C10-K1", ctx.site(EDGE, fn, sel),
-                  "admissible edges are not `all edges, or the non-border edges exactly when avoid_boundary is set on a non-polyline`",
-                  f"selection per (avoid_boundary, polyline): {res}" + (f"; unrecognised atoms {unknown}" if unknown else "")
-                  + " - the BFS tree excludes an edge iff avoid_boundary and not polyline and is_edge_on_border",
-                  note="border exclusion agrees with _avoid_edge on the 4 switch combinations")
-    # orientation pass
-    k2_orientation(ctx, fn, NB, lp)
+            taken = []
+            for st, v in binds:
+                rv = resolve_built(st, v)
+                where = st
+                if isinstance(rv, tuple):
+                    where, v2 = rv[2], rv[1]
+                else:
+                    v2 = rv
+                holds = True
+                for e, p in sk.atoms(sk.path_conds(where)):
+                    if not any(au.is_self_attr(n, "_avoidbound") or (isinstance(n, ast.Name) and n.id == "PolyLine") for n in ast.walk(e)):
+                        continue
+                    if _eval_bool(e, env, "?", "?") != p:
+                        holds = False
+                if holds:
+                    taken.append(v2)
+            if len(taken) != 1:
+                raise _Unknown(f"{len(taken)} bindings of the edge list apply")
+            res[(ab, pl)] = _edge_selection(taken[0], env)
+    except _Unknown as ex:
+        ctx.undecided(R, site, "selection of the admissible edges (all / interior only) not recognised", str(ex))
+        return
+    want = {(ab, pl): ("filtered" if (ab and not pl) else "all") for ab, pl in res}
+    if res == want:
+        ctx.ok(R, site, "border exclusion agrees with _avoid_edge on the 4 switch combinations")
+    elif all(v in ("all", "filtered", "inverted") for v in res.values()):
+        ctx.fail(R, site, "admissible edges are not `all edges, or the non-border edges exactly when avoid_boundary is set on a non-polyline`",
+                 f"selection per (avoid_boundary, polyline): {res} - the BFS tree excludes an edge iff avoid_boundary and not polyline and is_edge_on_border")
+    else:
+        ctx.undecided(R, site, "the expression building the admissible edge list is not recognised", "")
 
 
-def _edge_selection(val):
-    """'all' | 'filtered' | 'other' for the expression building the admissible edge list"""
+def _edge_selection(val, env):
+    """'all' | 'filtered' | 'inverted' | 'other' for the expression building the admissible edge list (under the switches of env)"""
     if isinstance(val, ast.ListComp) and len(val.generators) == 1:
         g = val.generators[0]
-        if not g.ifs and isinstance(g.target, ast.Name) and au.src(g.iter) == "self.mesh.id_edges" and au.src(val.elt) == g.target.id:
+        if not g.ifs and isinstance(g.target, ast.Name) and au.src(g.iter) in ("self.mesh.id_edges", "range(len(self.mesh.edges))") and au.src(val.elt) == g.target.id:
             return "all"
-        if len(g.ifs) == 1 and isinstance(g.iter, ast.Call) and au.call_tail(g.iter) == "enumerate" and au.src(g.iter.args[0]) == "self.mesh.edges" \
+        if isinstance(g.iter, ast.Call) and au.call_tail(g.iter) == "enumerate" and au.src(g.iter.args[0]) == "self.mesh.edges" \
                 and isinstance(g.target, ast.Tuple) and len(g.target.elts) == 2 and isinstance(g.target.elts[0], ast.Name) \
-                and isinstance(g.target.elts[1], ast.Tuple) and len(g.target.elts[1].elts) == 2:
-            e = g.target.elts[0].id
+                and isinstance(g.target.elts[1], ast.Tuple) and len(g.target.elts[1].elts) == 2 and au.src(val.elt) == g.target.elts[0].id:
             a, b_ = (au.src(x) for x in g.target.elts[1].elts)
-            t = g.ifs[0]
-            if isinstance(t, ast.UnaryOp) and isinstance(t.op, ast.Not) and _avoid_atoms(t.operand, a, b_) == "BORDER" \
-                    and au.src(t.operand.func.value) == "self.mesh" and au.src(val.elt) == e:
-                return "filtered"
-    if isinstance(val, ast.Call) and au.call_tail(val) in ("list", "sorted") and len(val.args) == 1 and au.src(val.args[0]) == "self.mesh.id_edges":
+            if not g.ifs:
+                return "all"
+            if len(g.ifs) >= 1:
+                try:
+                    keep_border = all(_eval_bool(t_, dict(env, BORDER=True), a, b_) for t_ in g.ifs)
+                    keep_inner = all(_eval_bool(t_, dict(env, BORDER=False), a, b_) for t_ in g.ifs)
+                except _Unknown:
+                    return "other"
+                if keep_inner and not keep_border:
+                    return "filtered"
+                if keep_inner and keep_border:
+                    return "all"
+                if keep_border and not keep_inner:
+                    return "inverted"
+    if isinstance(val, ast.Call) and au.call_tail(val) in ("list", "sorted") and len(val.args) == 1 and au.src(val.args[0]) in ("self.mesh.id_edges", "range(len(self.mesh.edges))"):
         return "all"
-    return "other:" + au.src(val)[:60]
+    return "other"
 
 
-def k2_orientation(ctx, fn, NB, kruskal_loop):
-    site = ctx.site(EDGE, fn)
-    qs = deque_names(fn)
-    loops = [st for st in fn.body if isinstance(st, ast.While) and qs & au.names(st.test)]
-    if len(qs) != 1 or len(loops) != 1 or NB is None:
-        ctx.fail("C10-K1", site, "orientation pass (walk of the Kruskal adjacency from the root) not found", "")
+def k2_orientation(ctx, F, fn0, NB, kruskal_loop):
+    R = "C10-K1"
+    fn = F.fn
+    site = ctx.site(EDGE, fn0)
+    wl = [w for w in _worklist(F) if F.before(kruskal_loop, w[1])]
+    if len(wl) != 1 or len(wl[0][2]) != 1 or NB is None:
+        ctx.undecided(R, site, "orientation pass (walk of the Kruskal adjacency from the root) not recognised", "")
         return
-    Q = next(iter(qs))
-    loop = loops[0]
-    ctx.check(sk.index_in(fn.body, loop) > sk.index_in(fn.body, sk.top_stmt_in(fn.body, kruskal_loop)), "C10-K1", site,
-              "orientation pass runs before Kruskal's loop", "", note="orientation after Kruskal")
-    pops = [c for c in au.calls(loop) if q_method(c, Q, ("popleft", "pop"))]
-    pst = au.enclosing_stmt(pops[0]) if len(pops) == 1 else None
-    if not (isinstance(pst, ast.Assign) and isinstance(pst.targets[0], ast.Tuple) and len(pst.targets[0].elts) == 2
-            and all(isinstance(x, ast.Name) for x in pst.targets[0].elts)):
-        ctx.fail("C10-K1", site, "orientation pass does not pop a (node, previous) pair", "")
+    Q, loop, pops = wl[0]
+    s = ctx.site(EDGE, fn0, loop)
+    pair, pst = _pair_of_pop(F, loop, pops[0])
+    if pair is None:
+        ctx.undecided(R, s, "orientation pass does not pop a (node, previous) pair", "")
         return
-    v, prev = (x.id for x in pst.targets[0].elts)
-    par = [st for st in loop.body if isinstance(st, ast.Assign) and len(st.targets) == 1 and self_tab(st.targets[0], "parent", v)]
-    ctx.check(len(par) == 1 and isinstance(par[0].value, ast.Name) and par[0].value.id == prev, "C10-K1", ctx.site(EDGE, fn, loop),
-              "orientation pass does not set parent[node] = previous", f"{[au.src(x) for x in par]}", note="parent[v] = prev")
-    chs = [st for st in loop.body if isinstance(st, ast.Assign) and len(st.targets) == 1 and self_tab(st.targets[0], "children", v)]
-    okc = False
-    if len(chs) == 1 and isinstance(chs[0].value, ast.ListComp) and len(chs[0].value.generators) == 1:
-        g = chs[0].value.generators[0]
-        x = g.target.id if isinstance(g.target, ast.Name) else None
-        okc = x is not None and sk.is_sub(g.iter, NB, v) and au.src(chs[0].value.elt) == x and len(g.ifs) == 1 and \
-            sk.has_atom([(g.ifs[0], True)], ast.Compare(left=ast.Name(id=x, ctx=ast.Load()), ops=[ast.Eq()], comparators=[ast.Name(id=prev, ctx=ast.Load())]), False)
-    ctx.check(okc, "C10-K1", ctx.site(EDGE, fn, loop), "children[node] is not `the Kruskal neighbours of node except the previous node`",
-              f"{[au.src(x) for x in chs]}: keeping the previous node walks every tree edge back and forth for ever; dropping others loses subtrees",
-              note="children[v] = [x for x in nb[v] if x != prev]")
-    enq = [c for c in au.calls(loop) if q_method(c, Q, ("append", "appendleft"))]
-    oke = False
+    v, prev = pair
+    par = [(st, tg, val) for st, tg, val in hr.item_stores(loop) if au.is_self_attr(tg.value, "parent")]
+    if len(par) == 1 and isinstance(par[0][1].slice, ast.Name) and par[0][1].slice.id == v and isinstance(par[0][2], ast.Name) and par[0][2].id == prev \
+            and not F.conds(par[0][0], stop=loop):
+        ctx.ok(R, s, "parent[v] = prev")
+    elif len(par) == 1 and isinstance(par[0][2], ast.Name):
+        ctx.fail(R, s, "orientation pass does not set parent[node] = previous", "")
+    else:
+        ctx.undecided(R, s, "the parent store of the orientation pass is not recognised", "")
+    chs = [(st, tg, val) for st, tg, val in hr.item_stores(loop) if au.is_self_attr(tg.value, "children")]
+    CH = None           # the children list of v as an expression key
+    if len(chs) == 1 and isinstance(chs[0][1].slice, ast.Name) and chs[0][1].slice.id == v and chs[0][2] is not None:
+        val = F.b.resolve(chs[0][2], at=chs[0][0], keep=(v, prev, NB, "self"))
+        if isinstance(val, ast.ListComp) and len(val.generators) == 1 and isinstance(val.generators[0].target, ast.Name):
+            g = val.generators[0]
+            x = g.target.id
+            from_nb = sk.is_sub(g.iter, NB, v)
+            filt = len(g.ifs) == 1 and any(isinstance(e_, ast.Compare) and isinstance(e_.ops[0], ast.Eq) and not p_
+                                           and sorted([au.src(e_.left), au.src(e_.comparators[0])]) == sorted([x, prev])
+                                           for e_, p_ in sk.atoms([(g.ifs[0], True)]))
+            if from_nb and au.src(val.elt) == x and filt:
+                ctx.ok(R, s, "children[v] = [x for x in nb[v] if x != prev]")
+                CH = True
+            elif from_nb and au.src(val.elt) == x and not g.ifs:
+                ctx.fail(R, s, "children[node] is not `the Kruskal neighbours of node except the previous node`",
+                         "keeping the previous node walks every tree edge back and forth for ever")
+            else:
+                ctx.undecided(R, s, "children[node] of the orientation pass is not recognised", "")
+        elif isinstance(val, ast.Call) and au.call_tail(val) in ("list", "sorted") and len(val.args) == 1 and sk.is_sub(val.args[0], NB, v):
+            ctx.fail(R, s, "children[node] is not `the Kruskal neighbours of node except the previous node`",
+                     "keeping the previous node walks every tree edge back and forth for ever")
+        else:
+            ctx.undecided(R, s, "children[node] of the orientation pass is not recognised", "")
+    else:
+        ctx.undecided(R, s, "children[node] of the orientation pass is not recognised", "")
+    enq = [c for c in au.calls(loop) if q_method(c, Q, ("append", "appendleft")) and len(c.args) == 1]
     if len(enq) == 1 and isinstance(enq[0].args[0], ast.Tuple) and len(enq[0].args[0].elts) == 2:
-        fr = [a for a in au.ancestors(enq[0]) if isinstance(a, ast.For)]
+        fr = [a for a in au.ancestors(enq[0]) if isinstance(a, ast.For) and F.inside(a, loop)]
         t = enq[0].args[0].elts
-        oke = bool(fr) and isinstance(fr[0].target, ast.Name) and self_tab(fr[0].iter, "children", v) and au.src(t[0]) == fr[0].target.id \
-            and au.src(t[1]) == v and not sk.path_conds(enq[0], stop=loop) and chs and before_stmt(chs[0], fr[0])
-    ctx.check(oke, "C10-K1", ctx.site(EDGE, fn, loop), "orientation pass does not enqueue (child, node) for every child of node",
-              f"{[au.src(c) for c in enq]}", note="queue.append((child, v)) for child in children[v]")
-    # root initialisation
-    idx = sk.index_in(fn.body, loop)
-    pre = fn.body[:idx]
-    rp = [st for st in pre if isinstance(st, ast.Assign) and au.src(st.targets[0]) == "self.parent[self.root]" and au.const(st.value, 0) is None
-          and isinstance(st.value, ast.Constant)]
+        if fr and isinstance(fr[0].target, ast.Name):
+            itr = F.b.resolve(fr[0].iter, at=fr[0], keep=(v, prev, NB, "self"))
+            over_children = self_tab(fr[0].iter, "children", v) or (chs and chs[0][2] is not None and hr.same(itr, F.b.resolve(chs[0][2], at=chs[0][0], keep=(v, prev, NB, "self"))))
+            if over_children and au.src(t[0]) == fr[0].target.id and au.src(t[1]) == v and not F.conds(enq[0], stop=fr[0]) and chs and F.before(chs[0][0], fr[0]):
+                ctx.ok(R, s, "queue.append((child, v)) for child in children[v]")
+            elif over_children and au.src(t[1]) == fr[0].target.id and au.src(t[0]) == v:
+                ctx.fail(R, s, "orientation pass does not enqueue (child, node) for every child of node", "the pair is enqueued as (node, child)")
+            else:
+                ctx.undecided(R, s, "the enqueue of the orientation pass is not recognised", "")
+        else:
+            ctx.undecided(R, s, "the enqueue of the orientation pass is not recognised", "")
+    else:
+        ctx.undecided(R, s, "the enqueue of the orientation pass is not recognised", "")
+    # root initialisation: either the generic seed (root, None), or the root handled by hand
+    seeds = [c for c in au.calls(fn) if q_method(c, Q, ("append", "appendleft")) and F.before(c, loop) and not F.inside(c, loop) and len(c.args) == 1]
+    generic = [c for c in seeds if isinstance(c.args[0], ast.Tuple) and len(c.args[0].elts) == 2 and au.is_self_attr(c.args[0].elts[0], "root")
+               and hr.is_none(c.args[0].elts[1]) and F.unconditional(c, loop)]
+    if generic and len(seeds) == 1:
+        ctx.ok(R, site, "orientation seeded with (root, None)")
+        return
+    pre = [st for st in au.stmts(fn.body) if F.before(st, loop) and F.before(kruskal_loop, st)]
+    rp = [st for st in pre if isinstance(st, ast.Assign) and au.src(st.targets[0]) == "self.parent[self.root]" and hr.is_none(st.value)]
+    def nb_root(e, at):
+        return isinstance(e, ast.Subscript) and isinstance(e.value, ast.Name) and F.root(e.value.id, at) == F.root(NB, at) and au.is_self_attr(e.slice, "root")
     rc = [st for st in pre if isinstance(st, ast.Assign) and au.src(st.targets[0]) == "self.children[self.root]"
-          and isinstance(st.value, ast.Call) and au.call_tail(st.value) == "list" and au.src(st.value.args[0]) == f"{NB}[self.root]"]
-    rq = [c for st in pre if isinstance(st, ast.For) for c in au.calls(st) if q_method(c, Q, ("append", "appendleft"))
-          and isinstance(st.target, ast.Name) and au.src(st.iter) in (f"{NB}[self.root]", "self.children[self.root]")
-          and au.src(c.args[0]) == f"({st.target.id}, self.root)"]
-    ctx.check(len(rp) == 1 and len(rc) == 1 and len(rq) == 1, "C10-K1", site,
-              "orientation pass is not seeded with parent[root] = None, children[root] = neighbours of root, and (neighbour, root) entries",
-              f"{len(rp)} / {len(rc)} / {len(rq)} of the three seeds found", note="root seeds")
-
-
-def before_stmt(a, b_):
-    return (a.lineno, a.col_offset) < (b_.lineno, b_.col_offset)
+          and isinstance(st.value, ast.Call) and au.call_tail(st.value) in ("list", "sorted") and st.value.args and nb_root(st.value.args[0], st)]
+    rq = [c for c in seeds if isinstance(c.args[0], ast.Tuple) and len(c.args[0].elts) == 2 and au.is_self_attr(c.args[0].elts[1], "root")
+          and [a for a in au.ancestors(c) if isinstance(a, ast.For) and (nb_root(a.iter, a) or au.src(a.iter) == "self.children[self.root]")
+               and au.src(c.args[0].elts[0]) == au.src(a.target)]]
+    if len(rc) == 1 and len(rq) == 1:
+        ctx.ok(R, site, "root seeds")
+    else:
+        ctx.undecided(R, site, "the seeding of the orientation pass is not recognised", "")
 
 
 # ----------------------------------------------------------------------- C10-F1
 def f1_forests(ctx):
     repo = ctx.repo
-    n = 0
+    R = "C10-F1"
     for modname, cname, kind, tree, excl_field in FORESTS:
-        fn = repo.func(modname, cname + ".compute")
-        site = ctx.site(modname, fn)
-        n += 1
-        b = sym.Bindings(fn)
-        lps = [st for st in fn.body if isinstance(st, ast.For) and isinstance(st.target, ast.Name)
-               and isinstance(st.iter, ast.Attribute) and st.iter.attr.startswith("id_") and au.src(st.iter.value) == "self.mesh"]
-        if len(lps) != 1:
-            ctx.fail("C10-F1", site, "forest loop over the element ids not found", f"{len(lps)} candidate loop(s)")
-            continue
-        lp = lps[0]
-        x = lp.target.id
-        ctx.check(lp.iter.attr == "id_" + kind, "C10-F1", ctx.site(modname, fn, lp), f"forest iterates over {lp.iter.attr} instead of id_{kind}",
-                  "every element of the kind spanned by the trees must be covered once", note=f"for x in self.mesh.id_{kind}")
-        roots = [c for c in au.calls(lp) if au.call_tail(c) == "append" and au.is_self_attr(c.func.value, "roots")]
+        fn0 = repo.func(modname, cname + ".compute")
+        F = _flat(ctx, modname, fn0)
+        fn = F.fn
+        site = ctx.site(modname, fn0)
+        b = F.b
+
+        def S(node):
+            return ctx.site(modname, fn0, node)
+        roots = [c for c in au.calls(fn) if au.call_tail(c) == "append" and au.is_self_attr(c.func.value, "roots") and len(c.args) == 1]
         if len(roots) != 1:
-            ctx.fail("C10-F1", site, "forest does not record exactly one root per new tree", f"{len(roots)} roots.append in the loop")
+            ctx.undecided(R, site, "the loop that roots a tree at every unvisited element is not recognised", f"{len(roots)} roots.append")
             continue
         r = roots[0]
-        conds = sk.atoms(sk.path_conds(r, stop=lp))
-        VIS = None
-        if len(conds) == 1 and sk.is_sub(conds[0][0], None, x) and not conds[0][1]:
-            VIS = conds[0][0].value.id
-        ctx.check(VIS is not None and au.src(r.args[0]) == x, "C10-F1", ctx.site(modname, fn, r),
-                  "a root is not recorded for exactly the elements found unvisited (`if not visited[x]: roots.append(x)`)",
-                  f"guards {[('' if p else 'not ') + au.src(e) for e, p in conds]}, recorded `{au.src(r.args[0])}`: one tree per connected component",
-                  note="roots.append(x) under not visited[x]")
-        if VIS is None:
+        fors = [a for a in au.ancestors(r) if isinstance(a, ast.For)]
+        el = _element_loop(F, fors[0], kind) if fors else None
+        if el is None:
+            ctx.undecided(R, site, "forest loop over the element ids not recognised", "")
             continue
-        blk, _ = au.enclosing_block(au.enclosing_stmt(r))
+        lp = fors[0]
+        x, _, k = el
+        if k == kind:
+            ctx.ok(R, S(lp), f"for x in ids of {kind}")
+        else:
+            ctx.fail(R, S(lp), f"forest iterates over {k} instead of {kind}", "every element of the kind spanned by the trees must be covered once")
+            continue
+        conds = F.conds(r, stop=lp)
+        VIS = None
+        inverted = False
+        for e, p in conds:
+            ft = hr.flag_test(e, p)
+            if ft and isinstance(ft[0], ast.Name) and isinstance(ft[1], ast.Name) and F.root(ft[1].id, r) == x:
+                VIS = ft[0].id
+                inverted = ft[2] is True
+        rec_ok = isinstance(r.args[0], ast.Name) and F.root(r.args[0].id, r) == x
+        if VIS is not None and len(conds) == 1 and not inverted and rec_ok:
+            ctx.ok(R, S(r), "roots.append(x) under not visited[x]")
+        elif VIS is not None and inverted:
+            ctx.fail(R, S(r), "a root is not recorded for exactly the elements found unvisited (`if not visited[x]: roots.append(x)`)",
+                     "the test is inverted: trees are started from visited elements only")
+            continue
+        elif VIS is None and not conds and not F.opaque(lp, {x}) and not F.opaque(fn):
+            ctx.fail(R, S(r), "a root is not recorded for exactly the elements found unvisited (`if not visited[x]: roots.append(x)`)",
+                     "every element starts a tree of its own: one tree per connected component is required")
+            continue
+        else:
+            ctx.undecided(R, S(r), "the condition under which a new root is recorded is not recognised", "")
+            continue
+        rkey = {(hr.key(e), p) for e, p in conds}
+
+        def same_conds(n):
+            return {(hr.key(e), p) for e, p in F.conds(n, stop=lp)} == rkey
         # tree built from x, computed, recorded
-        made = [st for st in blk if isinstance(st, ast.Assign) and isinstance(st.targets[0], ast.Name)
-                and any(isinstance(c.func, ast.Name) and c.func.id == tree for c in au.calls(st))]
-        okt = False
-        why = f"no `{tree}(...)` bound in the block of the root"
+        made = [st for st in au.stmts(lp.body) if isinstance(st, ast.Assign) and len(st.targets) == 1 and isinstance(st.targets[0], ast.Name)
+                and any(isinstance(c.func, ast.Name) and c.func.id == tree for c in au.calls(st)) and same_conds(st)]
         T = None
         if len(made) == 1:
             T = made[0].targets[0].id
             val = made[0].value
             ctor = [c for c in au.calls(made[0]) if isinstance(c.func, ast.Name) and c.func.id == tree][0]
             computed = (isinstance(val, ast.Call) and val.func is ctor and not val.args) or \
-                any(isinstance(c.func, ast.Attribute) and c.func.attr == "compute" and au.src(c.func.value) == T
-                    for st in blk for c in au.calls(st))
+                any(isinstance(c.func, ast.Attribute) and c.func.attr in ("compute", "__call__") and isinstance(c.func.value, ast.Name)
+                    and F.root(c.func.value.id, c) == T and same_conds(c) for c in au.calls(lp))
             init = repo.func(modname, tree + ".__init__")
-            amap = sk.resolve_positional(ctor, init, skip_self=True) or {}
+            amap = sk.resolve_positional(ctor, init, skip_self=True)
             ps = au.params(init, skip_self=True)
-            okm = au.src(amap.get(ps[0])) == "self.mesh" if ps and ps[0] in amap else False
-            okr = len(ps) > 1 and ps[1] in amap and au.src(amap[ps[1]]) == x
-            okx = True
-            if excl_field:
-                okx = excl_field in amap and au.is_self_attr(amap[excl_field], excl_field)
-            okt = computed and okm and okr and okx
-            why = f"`{au.src(val)}`: computed={computed}, mesh={okm}, root={okr}, exclusions forwarded={okx}"
-        ctx.check(okt, "C10-F1", ctx.site(modname, fn, made[0] if made else r),
-                  f"the tree of a new root is not `{tree}(self.mesh, x{', self.' + excl_field if excl_field else ''})` computed before use", why,
-                  note=f"{tree}(self.mesh, x, ...)() in the root block")
+            if amap is None or not ps:
+                ctx.undecided(R, S(made[0]), "the constructor call of the tree of a new root is not recognised", "")
+            else:
+                okm = ps[0] in amap and au.src(amap[ps[0]]) == "self.mesh"
+                rarg = amap.get(ps[1]) if len(ps) > 1 else None
+                okr = isinstance(rarg, ast.Name) and F.root(rarg.id, made[0]) == x
+                okx = True
+                if excl_field:
+                    okx = excl_field in amap and au.is_self_attr(amap[excl_field], excl_field)
+                if computed and okm and okr and okx:
+                    ctx.ok(R, S(made[0]), f"{tree}(self.mesh, x, ...)() under the root test")
+                else:
+                    why = []
+                    if not computed:
+                        why.append("the tree is not computed before it is traversed")
+                    if not okm:
+                        why.append("it is not built on self.mesh")
+                    if not okr:
+                        why.append("its root is not the unvisited element (a random root is used)" if rarg is None else "its root is not the unvisited element")
+                    if not okx:
+                        why.append(f"the forest's {excl_field} are not forwarded")
+                    ctx.fail(R, S(made[0]), f"the tree of a new root is not `{tree}(self.mesh, x{', self.' + excl_field if excl_field else ''})` computed before use",
+                             "; ".join(why))
+        else:
+            ctx.undecided(R, S(r), "the construction of the tree of a new root is not recognised", f"{len(made)} candidate statement(s)")
         if T is None:
             continue
-        rec = [c for st in blk for c in au.calls(st) if au.call_tail(c) == "append" and au.is_self_attr(c.func.value, "trees")
-               and au.src(c.args[0]) == T and any(st is s for s in blk)]
-        ctx.check(len(rec) == 1, "C10-F1", ctx.site(modname, fn, r), "the new tree is not appended to self.trees in the block of its root",
-                  "roots and trees must stay parallel lists", note="trees.append(tree) with roots.append(x)")
-        marks = [st for st in au.stmts(lp.body) if isinstance(st, ast.Assign) and len(st.targets) == 1 and isinstance(st.targets[0], ast.Subscript)
-                 and isinstance(st.targets[0].value, ast.Name) and st.targets[0].value.id == VIS]
-        okm = False
-        if len(marks) == 1 and au.const(marks[0].value) is True:
-            fr = [a for a in au.ancestors(marks[0]) if isinstance(a, ast.For)]
-            if fr and fr[0] is not lp and any(fr[0] is s for s in blk):
-                it = fr[0].iter
+        rec = [c for c in au.calls(lp) if au.call_tail(c) == "append" and au.is_self_attr(c.func.value, "trees") and len(c.args) == 1
+               and isinstance(c.args[0], ast.Name) and F.root(c.args[0].id, c) == T]
+        if len(rec) == 1 and same_conds(rec[0]):
+            ctx.ok(R, S(r), "trees.append(tree) with roots.append(x)")
+        elif not rec and not F.opaque(lp, {T}) and not [st for st in au.stmts(fn.body) if isinstance(st, (ast.Assign, ast.AugAssign, ast.AnnAssign))
+                                                          and any(au.is_self_attr(t, "trees") for t in au.assign_targets(st))] \
+                and not [c for c in au.calls(fn) if isinstance(c.func, ast.Attribute) and au.is_self_attr(c.func.value, "trees") and c.func.attr != "append"]:
+            ctx.fail(R, S(r), "the new tree is not appended to self.trees with its root", "roots and trees must stay parallel lists")
+        else:
+            ctx.undecided(R, S(r), "the record of the new tree is not recognised", "")
+        marks = [(st, fm) for st in au.stmts(lp.body) if (fm := hr.flag_mark(st)) and isinstance(fm[0], ast.Name) and F.root(fm[0].id, st) == F.root(VIS, lp)]
+        okm = None
+        if len(marks) == 1 and marks[0][1][2] is True:
+            mst, fm = marks[0]
+            fr = [a for a in au.ancestors(mst) if isinstance(a, ast.For) and a is not lp and F.inside(a, lp)]
+            if fr:
+                itn = fr[0].iter
                 tg = fr[0].target
                 first = tg.elts[0] if isinstance(tg, ast.Tuple) and len(tg.elts) == 2 else None
-                okm = isinstance(it, ast.Call) and isinstance(it.func, ast.Attribute) and it.func.attr == "traverse" and au.src(it.func.value) == T \
-                    and first is not None and au.src(marks[0].targets[0].slice) == au.src(first) and not sk.path_conds(marks[0], stop=fr[0])
-        ctx.check(okm, "C10-F1", ctx.site(modname, fn, marks[0] if marks else r),
-                  "visited is not marked for every node of the new tree's traversal (`for node, _ in tree.traverse(): visited[node] = True`)",
-                  "elements of the component would start trees of their own / elements of other components would be skipped",
-                  note="visited marked from tree.traverse()")
-        dv = b.reaching(VIS, lp)
-        okv = dv is not None and not any(isinstance(n_, ast.Constant) and n_.value is True for n_ in ast.walk(dv)) and \
-            f"self.mesh.{kind}" in au.src(dv) or (dv is not None and f"self.mesh.id_{kind}" in au.src(dv))
-        ctx.check(okv, "C10-F1", site, f"visited table is not all-False over self.mesh.{kind}", au.src(dv) if dv is not None else "no definition",
-                  note=f"visited = [False] * len(self.mesh.{kind})")
+                trav = isinstance(itn, ast.Call) and isinstance(itn.func, ast.Attribute) and itn.func.attr == "traverse" and isinstance(itn.func.value, ast.Name) \
+                    and F.root(itn.func.value.id, fr[0]) == T
+                if trav and first is not None and hr.same(fm[1], first) and not F.conds(mst, stop=fr[0]) and same_conds(fr[0]):
+                    okm = True
+                elif trav and first is not None and isinstance(tg.elts[1], ast.Name) and hr.same(fm[1], tg.elts[1]):
+                    okm = False
+        if okm is True:
+            ctx.ok(R, S(marks[0][0]), "visited marked from tree.traverse()")
+        elif okm is False or (not marks and not F.opaque(lp, {VIS, T}) and not [n for n in au.walk(lp) if isinstance(n, ast.Name) and n.id == VIS
+                                                                               and not isinstance(au.parent(n), ast.Subscript)]):
+            ctx.fail(R, S(marks[0][0] if marks else r),
+                     "visited is not marked for every node of the new tree's traversal (`for node, _ in tree.traverse(): visited[node] = True`)",
+                     "elements of the component would start trees of their own / elements of other components would be skipped")
+        else:
+            ctx.undecided(R, S(r), "the marking of the elements reached by the new tree is not recognised", "")
+        ivals, found = F.initial_values(VIS, lp)
+        if any(isinstance(n_, ast.Constant) and n_.value is True for v_ in ivals for n_ in ast.walk(v_)):
+            ctx.fail(R, site, "visited table of the forest does not start all-False", "")
+        dv = F.definition(VIS, lp)
+        if dv is not None:
+            tk = _table_kind(F, dv, lp)
+            if tk is not None:
+                ctx.check(tk == kind, "C10-S1", site, f"{cname}.compute sizes a work table over {tk} instead of {kind}",
+                          f"tables of one forest are all indexed by {kind} ids", note=f"visited over {kind}")
 
 
 # ----------------------------------------------------------------------- C10-T1
 def t1_traverse(ctx):
-    fn = ctx.repo.func(BASE, "SpanningTree.traverse")
-    site = ctx.site(BASE, fn)
+    R = "C10-T1"
+    fn0 = ctx.repo.func(BASE, "SpanningTree.traverse")
+    F = _flat(ctx, BASE, fn0)
+    fn = F.fn
+    site = ctx.site(BASE, fn0)
+    b = F.b
     qs = deque_names(fn)
-    loops = [st for st in fn.body if isinstance(st, ast.While)]
+    loops = [st for st in au.stmts(fn.body) if isinstance(st, ast.While) and qs & au.names(st)]
     if len(qs) != 1 or len(loops) != 1:
-        ctx.fail("C10-T1", site, "work-list loop of traverse not found", "")
+        ctx.undecided(R, site, "work-list loop of traverse not recognised", "")
         return
     Q = next(iter(qs))
     loop = loops[0]
-    seeds = [c for st in fn.body[:sk.index_in(fn.body, loop)] for c in au.calls(st) if q_method(c, Q, ("append",))]
-    ctx.check(len(seeds) == 1 and au.src(seeds[0].args[0]) == "(self.root, None)" and not au.guards(seeds[0]), "C10-T1", site,
-              "traverse is not seeded with (self.root, None)", f"{[au.src(c) for c in seeds]}", note="queue.append((self.root, None))")
-    # pop: popleft for BFS, pop for DFS
-    popper = local_defs(fn)
-    pop_calls = [c for c in au.calls(loop) if (isinstance(c.func, ast.Name) and c.func.id in popper) or q_method(c, Q, ("pop", "popleft"))]
-    if len(pop_calls) != 1:
-        ctx.fail("C10-T1", site, "traverse does not pop exactly one entry per iteration", "")
-        return
-    pst = au.enclosing_stmt(pop_calls[0])
-    if not (isinstance(pst, ast.Assign) and isinstance(pst.targets[0], ast.Tuple) and len(pst.targets[0].elts) == 2):
-        ctx.fail("C10-T1", site, "popped entry of traverse is not unpacked as (node, parent)", "")
-        return
-    node, par = (au.src(x) for x in pst.targets[0].elts)
-    b = sym.Bindings(fn)
-    if isinstance(pop_calls[0].func, ast.Name):
-        pf = popper[pop_calls[0].func.id]
-        try:
-            f = order.return_formula(pf.body)
-        except order.Unsupported:
-            f = None
-        res = {}
-        if f is not None:
-            def ev(f, isbfs):
-                if f[0] == "ite":
-                    t = f[1]
-                    val = None
-                    d = b.resolve(t, keep=("order",))
-                    for e, p in sk.atoms([(d, True)]):
-                        if isinstance(e, ast.Compare) and au.src(e.left) == "order" and isinstance(e.ops[0], ast.Eq):
-                            lit = au.const(e.comparators[0])
-                            val = ((lit == "BFS") == isbfs) == p if lit in ("BFS", "DFS") else None
-                    if val is None:
-                        return None
-                    return ev(f[2], isbfs) if val else ev(f[3], isbfs)
-                if f[0] == "ret" and isinstance(f[1], ast.Call) and q_method(f[1], Q, ("pop", "popleft")):
-                    return f[1].func.attr
+    seeds = [c for c in au.calls(fn) if q_method(c, Q, ("append", "appendleft")) and F.before(c, loop) and not F.inside(c, loop)]
+    if len(seeds) == 1 and au.src(seeds[0].args[0]) == "(self.root, None)" and F.unconditional(seeds[0], loop):
+        ctx.ok(R, site, "queue seeded with (self.root, None)")
+    elif len(seeds) == 1 and isinstance(seeds[0].args[0], ast.Tuple):
+        ctx.fail(R, site, "traverse is not seeded with (self.root, None)", "")
+    else:
+        ctx.undecided(R, site, "the seeding of traverse is not recognised", "")
+    # which end is popped for BFS / DFS: every `q.pop()` / `q.popleft()` reachable in the loop with the conditions on `order`
+    order_param = au.params(fn0, skip_self=True)[0] if au.params(fn0, skip_self=True) else "order"
+
+    def order_value(e, pol, at):
+        """truth of atom (e, pol) as a function of is-BFS: returns {True: bool, False: bool} or None"""
+        r = b.resolve(e, at=at, keep=(order_param, Q, "self"))
+        if isinstance(r, ast.Compare) and len(r.ops) == 1 and isinstance(r.ops[0], ast.Eq) and au.src(r.left) == order_param:
+            lit = au.const(r.comparators[0])
+            if lit in ("BFS", "DFS"):
+                return {isb: ((lit == "BFS") == isb) == pol for isb in (True, False)}
+        if isinstance(r, ast.Compare) and len(r.ops) == 1 and isinstance(r.ops[0], ast.Eq) and au.src(r.comparators[0]) == order_param:
+            lit = au.const(r.left)
+            if lit in ("BFS", "DFS"):
+                return {isb: ((lit == "BFS") == isb) == pol for isb in (True, False)}
+        if isinstance(r, ast.Compare) and len(r.ops) == 1 and isinstance(r.ops[0], ast.In) and au.src(r.left) == order_param \
+                and isinstance(r.comparators[0], (ast.Tuple, ast.List, ast.Set)):
+            lits = [au.const(x) for x in r.comparators[0].elts]
+            return {isb: (("BFS" if isb else "DFS") in lits) == pol for isb in (True, False)}
+        return None
+    alts = []   # (conditions dict list, method)
+    unknown = False
+    for c in au.calls(loop):
+        if q_method(c, Q, ("pop", "popleft")):
+            cs = []
+            for e, p in sk.atoms(sk.path_conds(c, stop=loop)):
+                ov = order_value(e, p, c)
+                if ov is None:
+                    unknown = True
+                else:
+                    cs.append(ov)
+            alts.append((cs, c.func.attr, c))
+        elif isinstance(c.func, ast.Name) and (not c.args or (len(c.args) == 1 and isinstance(c.args[0], ast.Name) and c.args[0].id == Q)):
+            # a local name bound (possibly on sibling branches) to q.pop / q.popleft / deque.pop / deque.popleft
+            def meth(x):
+                if isinstance(x, ast.Attribute) and isinstance(x.value, ast.Name) and x.attr in ("pop", "popleft") \
+                        and ((x.value.id == Q and not c.args) or (x.value.id == "deque" and c.args)):
+                    return x.attr
                 return None
-            res = {"BFS": ev(f, True), "DFS": ev(f, False)}
-        ctx.check(res == {"BFS": "popleft", "DFS": "pop"}, "C10-T1", ctx.site(BASE, pf),
-                  "traverse does not pop the oldest entry in BFS order and the newest in DFS order",
-                  f"dequeue per order: {res}: breadth-first must be first-in first-out, depth-first last-in first-out (entries are appended on the right)",
-                  note="BFS -> popleft, DFS -> pop")
+            for st in au.stmts(fn.body):
+                for nm, v in sym.split_assign(st):
+                    if nm != c.func.id:
+                        continue
+                    base = []
+                    for e_, p_ in sk.atoms(sk.path_conds(st)):
+                        ov = order_value(e_, p_, st)
+                        if ov is not None:
+                            base.append(ov)
+                        elif order_param in au.names(b.resolve(e_, at=st, keep=(order_param,))):
+                            unknown = True
+                    if meth(v):
+                        alts.append((base, meth(v), c))
+                    elif isinstance(v, ast.IfExp) and meth(v.body) and meth(v.orelse):
+                        for t_, p_ in sk.atoms([(v.test, True)]):
+                            ov = order_value(t_, p_, st)
+                            if ov is None:
+                                unknown = True
+                            else:
+                                alts.append((base + [ov], meth(v.body), c))
+                                alts.append((base + [{k: not v_ for k, v_ in ov.items()}], meth(v.orelse), c))
+                    else:
+                        unknown = True
+    if not alts or unknown:
+        ctx.undecided(R, site, "the dequeue operation of traverse is not recognised", "")
+        return
+    res = {}
+    for isb, nm in ((True, "BFS"), (False, "DFS")):
+        taken = [m for cs, m, c in alts if all(cv[isb] for cv in cs)]
+        res[nm] = taken[0] if len(taken) == 1 else None
+    pushes = [c for c in au.calls(loop) if q_method(c, Q, ("append", "appendleft"))]
+    right = all(c.func.attr == "append" for c in pushes) and all(c.func.attr == "append" for c in seeds)
+    if res == {"BFS": "popleft", "DFS": "pop"} and right:
+        ctx.ok(R, site, "BFS -> popleft, DFS -> pop")
+    elif res == {"BFS": "pop", "DFS": "popleft"} and right:
+        ctx.fail(R, site, "traverse does not pop the oldest entry in BFS order and the newest in DFS order",
+                 "breadth-first must be first-in first-out, depth-first last-in first-out (entries are appended on the right)")
+    elif None not in res.values() and right and res["BFS"] == res["DFS"]:
+        ctx.fail(R, site, "traverse does not pop the oldest entry in BFS order and the newest in DFS order", "both orders pop the same end")
+    else:
+        ctx.undecided(R, site, "the dequeue operation of traverse is not recognised", "")
+    pop_call = alts[0][2]
+    pst = au.enclosing_stmt(pop_call)
+    names = None
+    tg = pst.targets[0] if isinstance(pst, ast.Assign) else None
+    if isinstance(tg, ast.Tuple) and len(tg.elts) == 2 and all(isinstance(x, ast.Name) for x in tg.elts):
+        names = [x.id for x in tg.elts]
+    if names is None:
+        ctx.undecided(R, site, "popped entry of traverse is not unpacked as (node, parent)", "")
+        return
+    node, par = names
     ys = [n for n in au.walk(loop) if isinstance(n, ast.Yield)]
-    oky = len(ys) == 1 and ys[0].value is not None and au.src(ys[0].value) == f"({node}, {par})" and not sk.path_conds(ys[0], stop=loop) \
-        and any(au.enclosing_stmt(ys[0]) is x for x in loop.body)
-    ctx.check(oky, "C10-T1", site, "traverse does not yield the popped (node, parent) pair exactly once per iteration",
-              f"{[au.src(y) for y in ys]}", note="yield node, parent")
-    enq = [c for c in au.calls(loop) if q_method(c, Q, ("append",))]
-    oke = False
-    if len(enq) == 1:
-        fr = [a for a in au.ancestors(enq[0]) if isinstance(a, ast.For)]
-        oke = bool(fr) and isinstance(fr[0].target, ast.Name) and au.src(fr[0].iter) == f"self.children[{node}]" \
-            and au.src(enq[0].args[0]) == f"({fr[0].target.id}, {node})" and not sk.path_conds(enq[0], stop=loop)
-    ctx.check(oke, "C10-T1", site, "traverse does not enqueue (child, node) for every child of the popped node",
-              f"{[au.src(c) for c in enq]}", note="queue.append((child, node)) for child in self.children[node]")
+    if len(ys) == 1 and ys[0].value is not None and au.src(ys[0].value) == f"({node}, {par})" and not sk.path_conds(ys[0], stop=loop):
+        ctx.ok(R, site, "yield node, parent")
+    elif len(ys) == 1 and ys[0].value is not None and au.src(ys[0].value) == f"({par}, {node})":
+        ctx.fail(R, site, "traverse does not yield the popped (node, parent) pair exactly once per iteration", "it yields (parent, node)")
+    else:
+        ctx.undecided(R, site, "the yield of traverse is not recognised", "")
+    enq = [c for c in pushes if len(c.args) == 1]
+    if len(enq) == 1 and isinstance(enq[0].args[0], ast.Tuple) and len(enq[0].args[0].elts) == 2:
+        fr = [a for a in au.ancestors(enq[0]) if isinstance(a, ast.For) and F.inside(a, loop)]
+        t = enq[0].args[0].elts
+        if fr and isinstance(fr[0].target, ast.Name) and au.src(fr[0].iter) == f"self.children[{node}]" and not sk.path_conds(enq[0], stop=loop):
+            if au.src(t[0]) == fr[0].target.id and au.src(t[1]) == node:
+                ctx.ok(R, site, "queue.append((child, node)) for child in self.children[node]")
+            elif au.src(t[1]) == fr[0].target.id and au.src(t[0]) == node:
+                ctx.fail(R, site, "traverse does not enqueue (child, node) for every child of the popped node", "it enqueues (node, child)")
+            else:
+                ctx.undecided(R, site, "the enqueue of traverse is not recognised", "")
+        else:
+            ctx.undecided(R, site, "the enqueue of traverse is not recognised", "")
+    else:
+        ctx.undecided(R, site, "the enqueue of traverse is not recognised", "")
+    if ys and enq and not F.before(ys[0], enq[0]):
+        ctx.undecided(R, site, "traverse enqueues the children before yielding the node", "")
     # forest traverse delegates with the order
-    ff = ctx.repo.func(BASE, "SpanningForest.traverse")
-    tc = [c for c in au.calls(ff) if au.call_tail(c) == "traverse"]
-    okf = len(tc) == 1 and isinstance(au.parent(tc[0]), ast.For) and (
-        [au.src(a) for a in tc[0].args] == ["order"] or [(k.arg, au.src(k.value)) for k in tc[0].keywords] == [("order", "order")])
-    fr = [a for a in au.ancestors(tc[0]) if isinstance(a, ast.For)] if tc else []
-    okf = okf and len(fr) == 2 and au.src(fr[1].iter) == "self.trees" and au.src(tc[0].func.value) == au.src(fr[1].target)
-    ctx.check(okf, "C10-T1", ctx.site(BASE, ff), "SpanningForest.traverse does not traverse every tree with the requested order", "",
-              note="for tree in self.trees: tree.traverse(order=order)")
+    ff0 = ctx.repo.func(BASE, "SpanningForest.traverse")
+    FF = _flat(ctx, BASE, ff0)
+    tc = [c for c in au.calls(FF.fn) if au.call_tail(c) == "traverse"]
+    okf = None
+    if len(tc) == 1:
+        op = au.params(ff0, skip_self=True)
+        passes = [au.src(a) for a in tc[0].args] == op[:1] or [(k.arg, au.src(k.value)) for k in tc[0].keywords] == [(op[0], op[0])] if op else False
+        fr = [a for a in au.ancestors(tc[0]) if isinstance(a, ast.For)]
+        over = [a for a in fr if au.src(a.iter) == "self.trees" and au.src(tc[0].func.value) == au.src(a.target)]
+        ys = [n for n in au.walk(FF.fn) if isinstance(n, ast.Yield)]
+        if over and passes and ys:
+            okf = True
+        elif over and not passes and not tc[0].args and not tc[0].keywords:
+            okf = False
+    if okf is True:
+        ctx.ok(R, ctx.site(BASE, ff0), "for tree in self.trees: tree.traverse(order=order)")
+    elif okf is False:
+        ctx.fail(R, ctx.site(BASE, ff0), "SpanningForest.traverse does not traverse every tree with the requested order", "the order is not forwarded")
+    else:
+        ctx.undecided(R, ctx.site(BASE, ff0), "SpanningForest.traverse is not recognised", "")
+
+
+# ----------------------------------------------------------------------- C10-E1
+INPLACE = ("append", "extend", "insert", "reverse", "sort", "pop", "remove", "clear")
+
+
+def e1_forest_edges(ctx):
+    """SpanningForest.edges returns a fresh list: a list owned by a tree is never changed in place"""
+    q = "SpanningForest.edges"
+    if not ctx.repo.has_func(BASE, q):
+        return
+    fn0 = ctx.repo.func(BASE, q)
+    F = _flat(ctx, BASE, fn0)
+    site = ctx.site(BASE, fn0)
+
+    def tree_owned(e):
+        """e evaluates to the `.edges` list object of a tree"""
+        return isinstance(e, ast.Attribute) and e.attr == "edges" and not au.is_self_attr(e)
+    shared = {}
+    for st in au.stmts(F.fn.body):
+        for nm, v in sym.split_assign(st):
+            if tree_owned(v) or (isinstance(v, ast.IfExp) and (tree_owned(v.body) or tree_owned(v.orelse))):
+                shared[nm] = st
+    bad = []
+    for st in au.stmts(F.fn.body):
+        tgt = None
+        if isinstance(st, ast.AugAssign):
+            tgt = st.target
+        elif isinstance(st, ast.Expr) and isinstance(st.value, ast.Call) and isinstance(st.value.func, ast.Attribute) and st.value.func.attr in INPLACE:
+            tgt = st.value.func.value
+        if tgt is None:
+            continue
+        if (isinstance(tgt, ast.Name) and tgt.id in shared and F.before(shared[tgt.id], st)) or tree_owned(tgt):
+            bad.append(st)
+    if bad:
+        ctx.fail("C10-E1", ctx.site(BASE, fn0, bad[0]), "SpanningForest.edges extends in place the edge list owned by one of its trees",
+                 "the list returned for the forest is the very list of a tree: every query appends the edges of the other trees to that tree, "
+                 "which then has edges outside its component (and more than reached - 1 of them)")
+    else:
+        ctx.ok("C10-E1", site, "forest edge list is a fresh list")
+
+
+# ----------------------------------------------------------------------- C10-U1
+UF = "utils.unionfind"
+
+
+def u1_unionfind(ctx):
+    """Kruskal relies on connected(a, b) <=> find(a) == find(b)"""
+    if not ctx.repo.has_func(UF, "UnionFind.connected"):
+        return
+    fn0 = ctx.repo.func(UF, "UnionFind.connected")
+    F = _flat(ctx, UF, fn0)
+    site = ctx.site(UF, fn0)
+    ps = au.params(fn0, skip_self=True)
+    rets = [st for st in au.stmts(F.fn.body) if isinstance(st, ast.Return) and st.value is not None]
+
+    def is_find(e, arg):
+        return isinstance(e, ast.Call) and au.is_self_attr(e.func, "find") and len(e.args) == 1 and isinstance(e.args[0], ast.Name) and e.args[0].id == arg
+    verdict = None
+    main = [r for r in rets if not (isinstance(r.value, ast.Constant) and r.value.value is True)]
+    if len(ps) == 2 and len(main) == 1:
+        v = F.b.resolve(main[0].value, at=main[0], keep=("self",) + tuple(ps))
+        if isinstance(v, ast.Compare) and len(v.ops) == 1 and isinstance(v.ops[0], ast.Eq):
+            l, r = v.left, v.comparators[0]
+            if (is_find(l, ps[0]) and is_find(r, ps[1])) or (is_find(l, ps[1]) and is_find(r, ps[0])):
+                verdict = True
+            elif all(isinstance(x, ast.Subscript) and any(au.is_self_attr(n, "_par") for n in ast.walk(x)) for x in (l, r)):
+                verdict = "it compares entries of the parent table, not the roots returned by find(): two elements of one component whose paths are " \
+                          "only partly compressed are reported as not connected"
+    if verdict is True:
+        ctx.ok("C10-U1", site, "connected(x, y) = find(x) == find(y)")
+    elif verdict is None:
+        ctx.undecided("C10-U1", site, "UnionFind.connected is not recognised as find(x) == find(y)", "")
+    else:
+        ctx.fail("C10-U1", site, "UnionFind.connected does not compare the roots of its two arguments", verdict)
 
 
 # ----------------------------------------------------------------------- C10-S1
 def s1_kinds(ctx):
     repo = ctx.repo
-    KINDS = ("vertices", "edges", "faces", "cells")
     n = 0
-    table = [(m, c, k, ("__init__", "compute")) for m, c, k, _ in BFS_TREES] + [(m, c, k, ("compute",)) for m, c, k, _, _ in FORESTS]
-    for modname, cname, kind, meths in table:
-        for mname in meths:
-            fn = repo.func(modname, f"{cname}.{mname}")
-            seen_kinds = []
-            for x in au.walk(fn, into_funcs=True):
-                if isinstance(x, ast.Attribute) and au.src(x.value) == "self.mesh":
-                    if x.attr.startswith("id_") and x.attr[3:] in KINDS:
-                        seen_kinds.append((x.attr[3:], x))
-                    elif x.attr in KINDS and isinstance(au.parent(x), ast.Call) and au.call_tail(au.parent(x)) == "len":
-                        seen_kinds.append((x.attr, x))
-            for k, x in seen_kinds:
+    for modname, cname, kind, _ in BFS_TREES:
+        init0 = repo.func(modname, cname + ".__init__")
+        F = _flat(ctx, modname, init0)
+        init = F.fn
+        site = ctx.site(modname, init0)
+        rr = [c for c in au.calls(init) if au.call_tail(c) == "randint"]
+        if len(rr) == 1 and len(rr[0].args) == 2:
+            n += 1
+            lo = au.const(rr[0].args[0])
+            hi = F.b.resolve(rr[0].args[1], at=rr[0], keep=("self",))
+            kinds_seen = {k for x in ast.walk(hi) if (k := _kind_of_len(x))}
+            try:
+                p = sym.to_poly(hi, atom_of=lambda e: "N" if _kind_of_len(e) is not None else None, opaque=False)
+            except sym.NotPoly:
+                p = None
+            if p is None or len(kinds_seen) != 1:
+                ctx.undecided("C10-S1", site, f"the range of the random root of {cname} is not recognised", "")
+            elif kinds_seen != {kind}:
+                ctx.fail("C10-S1", site, f"random root of {cname} is drawn among the {next(iter(kinds_seen))} instead of the {kind}", "")
+            elif lo == 0 and p == sym.Poly.atom("N") - 1:
+                ctx.ok("C10-S1", site, "random root in range")
+            elif lo == 0 and p == sym.Poly.atom("N"):
+                ctx.fail("C10-S1", site, f"random root of {cname} is not randint(0, len(self.mesh.{kind}) - 1)",
+                         "randint is inclusive on both ends: an upper bound of len(...) picks a root that does not exist")
+            else:
+                ctx.fail("C10-S1", site, f"random root of {cname} is not randint(0, len(self.mesh.{kind}) - 1)", "")
+        elif rr:
+            ctx.undecided("C10-S1", site, f"the random root of {cname} is not recognised", "")
+        tabs = {}
+        for st in au.stmts(init.body):
+            if isinstance(st, (ast.Assign, ast.AnnAssign)) and st.value is not None:
+                for t in au.assign_targets(st):
+                    if au.is_self_attr(t) and t.attr in ("parent", "children", "edges"):
+                        tabs[t.attr] = (st, st.value)
+        if "children" in tabs:
+            n += 1
+            st, v = tabs["children"]
+            fresh = isinstance(v, ast.ListComp) and (isinstance(v.elt, ast.List) and not v.elt.elts or (isinstance(v.elt, ast.Call) and au.call_tail(v.elt) == "list" and not v.elt.args))
+            shared = isinstance(v, ast.BinOp) and isinstance(v.op, ast.Mult) and any(isinstance(s_, ast.List) and len(s_.elts) == 1 and isinstance(s_.elts[0], (ast.List, ast.Call))
+                                                                                     for s_ in (v.left, v.right))
+            if fresh:
+                ctx.ok("C10-S1", ctx.site(modname, init0, st), "a fresh children list per element")
+                k = _table_kind(F, v, st)
+                if k is not None:
+                    ctx.check(k == kind, "C10-S1", ctx.site(modname, init0, st), f"{cname}.__init__ sizes the children table over {k} instead of {kind}",
+                              f"tables of one tree are all indexed by {kind} ids", note=f"children over {kind}")
+            elif shared:
+                ctx.fail("C10-S1", ctx.site(modname, init0, st), f"{cname}.__init__ does not create a fresh list per element in children",
+                         "`[[]] * n` shares one children list between all elements")
+            else:
+                ctx.undecided("C10-S1", ctx.site(modname, init0, st), f"the children table of {cname} is not recognised", "")
+        if "parent" in tabs:
+            st, v = tabs["parent"]
+            k = _table_kind(F, v, st)
+            if k is not None:
                 n += 1
-                ctx.check(k == kind, "C10-S1", ctx.site(modname, fn, x), f"{cname}.{mname} sizes / iterates a table over {k} instead of {kind}",
-                          f"`{au.src(au.enclosing_stmt(x))[:70]}`: tables of one tree are all indexed by {kind} ids", note=f"tables over {kind}")
-        if (modname, cname) in [(m, c) for m, c, _, _ in BFS_TREES]:
-            init = repo.func(modname, cname + ".__init__")
-            rr = [c for c in au.calls(init) if au.call_tail(c) == "randint"]
-            okr = len(rr) == 1 and len(rr[0].args) == 2 and au.const(rr[0].args[0]) == 0
-            if okr:
-                try:
-                    p = sym.to_poly(rr[0].args[1], atom_of=lambda e: "N" if au.src(e) == f"len(self.mesh.{kind})" else None, opaque=False)
-                    okr = p == sym.Poly.atom("N") - 1
-                except sym.NotPoly:
-                    okr = False
-            ctx.check(okr, "C10-S1", ctx.site(modname, init), f"random root of {cname} is not randint(0, len(self.mesh.{kind}) - 1)",
-                      "randint is inclusive on both ends: an upper bound of len(...) picks a root that does not exist", note="random root in range")
-            tabs = {}
-            for st in au.stmts(init.body):
-                if isinstance(st, ast.Assign) and au.is_self_attr(st.targets[0]) and st.targets[0].attr in ("parent", "children", "edges"):
-                    tabs[st.targets[0].attr] = st.value
-            okt = set(tabs) == {"parent", "children", "edges"} and isinstance(tabs["edges"], ast.List) and not tabs["edges"].elts \
-                and isinstance(tabs["children"], ast.ListComp) and isinstance(tabs["children"].elt, ast.List) and not tabs["children"].elt.elts
-            ctx.check(okt, "C10-S1", ctx.site(modname, init), f"{cname}.__init__ does not create parent / a fresh list per element in children / empty edges",
-                      f"{ {k: au.src(v) for k, v in tabs.items()} }: `[[]] * n` would share one children list between all elements",
-                      note="fresh tables")
+                ctx.check(k == kind, "C10-S1", ctx.site(modname, init0, st), f"{cname}.__init__ sizes the parent table over {k} instead of {kind}",
+                          f"tables of one tree are all indexed by {kind} ids", note=f"parent over {kind}")
+        if "edges" in tabs:
+            st, v = tabs["edges"]
+            if not (isinstance(v, ast.List) and not v.elts or (isinstance(v, ast.Call) and au.call_tail(v) == "list" and not v.args)):
+                ctx.undecided("C10-S1", ctx.site(modname, init0, st), f"the edge list of {cname} does not start empty", "")
     if n < 1:
-        ctx.fail("C10-S1", ctx.site(EDGE, repo.func(EDGE, "EdgeSpanningTree.__init__")), "tables sized by the element kind not found",
-                 "no `len(self.mesh.<kind>)` / `self.mesh.id_<kind>` in the tree classes")
+        ctx.undecided("C10-S1", ctx.site(EDGE, repo.func(EDGE, "EdgeSpanningTree.__init__")), "tables sized by the element kind not recognised", "")
 
 
 # ----------------------------------------------------------------------- C10-N1
@@ -1043,8 +2086,9 @@ def n1_none_defaults(ctx):
     for modname, cname in TREE_INITS:
         if not repo.has_func(modname, cname + ".__init__"):
             continue
-        fn = repo.func(modname, cname + ".__init__")
-        site = ctx.site(modname, fn)
+        fn_orig = repo.func(modname, cname + ".__init__")
+        fn = _flat(ctx, modname, fn_orig).fn
+        site = ctx.site(modname, fn_orig)
         pos = fn.args.posonlyargs + fn.args.args
         ndef = len(fn.args.defaults)
         none_params = [a.arg for a, d in zip(pos[len(pos) - ndef:], fn.args.defaults) if isinstance(d, ast.Constant) and d.value is None] if ndef else []
@@ -1058,13 +2102,14 @@ def n1_none_defaults(ctx):
                 continue
             n += 1
             truthy = _bool_context_uses(fn, p_)
-            ctx.check(not truthy, "C10-N1", ctx.site(modname, fn, truthy[0] if truthy else fn),
-                      f"{cname}.__init__ tests the None-defaulted root parameter `{p_}` by truthiness",
-                      f"`{au.src(au.enclosing_stmt(truthy[0]))[:80]}`: element 0 is falsy, so a requested root 0 is treated as 'not given' and replaced "
+            ctx.check(not truthy, "C10-N1", ctx.site(modname, fn_orig, truthy[0] if truthy else fn_orig),
+                      f"{cname}.__init__ tests the None-defaulted root parameter by truthiness",
+                      "element 0 is falsy, so a requested root 0 is treated as 'not given' and replaced "
                       "by a random root (every forest starts its first tree from element 0)" if truthy else "",
-                      note=f"{p_} tested with `is None`")
+                      note="root parameter tested with `is None`")
             # the requested root reaches self.root unchanged when given
             given = []
+            unknown = False
             for st in root_stores:
                 conds = sk.atoms(sk.path_conds(st))
                 v = st.value
@@ -1072,17 +2117,28 @@ def n1_none_defaults(ctx):
                     ta = sk.atoms([(v.test, True)])
                     if len(ta) == 1 and _is_none_test(ta[0][0], p_):
                         given.append(v.orelse if ta[0][1] else v.body)
+                    else:
+                        unknown = True
                     continue
+                hit = False
                 for e, pol in conds:
-                    if _is_none_test(e, p_) and not pol:
-                        given.append(v)
-            okg = len(given) == 1 and isinstance(given[0], ast.Name) and given[0].id == p_
-            if not truthy:
-                ctx.check(okg, "C10-N1", site, f"{cname}.__init__ does not store the requested `{p_}` in self.root when it is given",
-                          f"stores under `{p_} is not None`: {[au.src(g) for g in given]}", note=f"self.root = {p_} when given")
+                    if _is_none_test(e, p_):
+                        hit = True
+                        if not pol:
+                            given.append(v)
+                if not hit and p_ in au.names(v):
+                    unknown = True
+            if truthy:
+                continue
+            if len(given) == 1 and isinstance(given[0], ast.Name) and given[0].id == p_:
+                ctx.ok("C10-N1", site, "self.root = requested root when given")
+            elif len(given) == 1 and isinstance(given[0], (ast.Constant, ast.Name)) and not unknown:
+                ctx.fail("C10-N1", site, f"{cname}.__init__ does not store the requested root in self.root when it is given", "")
+            else:
+                ctx.undecided("C10-N1", site, f"how {cname}.__init__ stores the requested root is not recognised", "")
     if n < 1:
-        ctx.fail("C10-N1", ctx.site(EDGE, repo.func(EDGE, "EdgeSpanningTree.__init__")), "root parameter of the tree constructors not found",
-                 "no None-defaulted parameter reaches self.root")
+        ctx.undecided("C10-N1", ctx.site(EDGE, repo.func(EDGE, "EdgeSpanningTree.__init__")), "root parameter of the tree constructors not recognised",
+                      "no None-defaulted parameter reaches self.root")
 
 
 def _is_none_test(e, name):
